@@ -28,9 +28,9 @@ func init() {
 		Explain: "Static necessary conditions for 'each training position is processed exactly once per tuning epoch' (tuner module). " +
 			"R1: every iter.Seq[Range] iterator of package tuning tiles its range: start begins at the range start, the constant added to start equals the width used for end, end is clipped by min to the (loop-invariant) range end, the loop runs while start < end-of-range, (start,end) is yielded on every iteration and the only exits are loop end and yield=false. " +
 			"R2: the permutation called by shuffleIndex is a Feistel network whose round is (L,R) <- (R, L xor g) with g independent of L and masked to the narrower half, half widths sum to the bits parameter, shift of the split equals the low width, the round count is an even constant, the join mirrors the split. " +
-			"R3: shuffleIndex returns only values proven < n (or 0 under a guard that holds only for n <= 1), re-feeds the permutation output (optionally masked to the domain), uses a domain 2^Len64(n-1) >= n, and its call closure is free of mutable globals / nondeterminism. " +
-			"R4: the reader feeding NewChunker's offsets exposes every byte it consumes from bufio.Reader (no path back to the read without returning the line; returned line is data[:len-K] with K the caller's per-line increment) — or, if offsets come from a reader-side counter, every consumed length is added to that counter. " +
-			"R5: manifest entry = [curr, curr+len+K); Chunk.Read returns buf[start-mapStart : end-mapStart-K]; the refill test establishes mapStart<=start and end<=mapEnd on every non-refill path; refill sets mapStart to the ReadAt offset and mapEnd to offset+count; the line index advances by one; Open maps every ix in [start,end) through shuffleIndex(ix, len(manifest), seed independent of ix) and appends manifest[that]. " +
+			"R3 (over the execution paths of shuffleIndex, rejection loop unrolled twice, so the loop's syntactic form does not matter): the returned value is the last permutation output and y < n was established after that call (or 0 under a guard that holds only for n <= 1); every repeated permutation call takes the previous output (optionally masked to the domain) and otherwise unchanged arguments; domain 2^Len64(n-1) >= n; the call closure is free of mutable globals / nondeterminism. " +
+			"R4 (over execution paths, helpers inlined): the reader feeding NewChunker's offsets exposes every byte it consumes from bufio.Reader — if offsets come from a reader-side counter, len(data) of every line read is added to that counter before the next read or a successful return; otherwise no read may be followed by another read without returning the line; the returned line is data[:len-K] with K the caller's per-line constant. " +
+			"R5: manifest entry = [o, o+len+K) with consecutive o; on every execution path of Chunk.Read (helpers inlined, conditions evaluated path-sensitively) to the successful return: the result is buf[a.start-mapStart : a.end-mapStart-K] for a = chunkLines[ix], ix advances exactly once after a was taken, and either the path established mapStart<=a.start and a.end<=mapEnd or it executed ReadAt(buf, a.start) followed by mapStart=a.start, mapEnd=a.start+count; in Open the set of indices passed to shuffleIndex is exactly [start,end) (linear range reasoning over the counting loop), the size argument is len(manifest), other arguments do not depend on the index, and manifest[perm] is appended / stored into its own slot of a list of end-start slots. " +
 			"Not decided: the server/client glue (not type-checkable offline), statistical quality of the shuffle, short reads, lines longer than the buffer, a final line without '\\n' (dropped consistently by all readers).",
 		Assume: []string{"go/ssa and go/types model the program faithfully", "calls are deterministic functions of their arguments when their closure has no mutable global / nondeterminism source (checked for shuffleIndex)", "(*os.File).ReadAt and bufio.Reader behave as documented"},
 		Run:    runC20,
@@ -46,7 +46,8 @@ func runC20(c *Ctx) {
 	acc := c20Manifest(c, p)
 	op := c20Open(c, p, acc)
 	if op.si != nil {
-		c20R3(c, p, op)
+		c20R3(c, p, &op)
+		op.chunkLines = c20OpenArgs(c, p, op)
 	}
 	c20R4(c, p, acc)
 	c20Read(c, p, acc, op)
@@ -337,6 +338,29 @@ func c20OwnCallee(v ssa.Value) (*ssa.Call, *ssa.Function) {
 	return call, fn
 }
 
+// c20Same: sameValue extended to structurally equal arithmetic (bits/2 recomputed, a+b vs b+a).
+func c20Same(a, b ssa.Value, depth int) bool {
+	if a == nil || b == nil {
+		return false
+	}
+	if sameValue(a, b, 0) {
+		return true
+	}
+	x, ok1 := stripConv(a).(*ssa.BinOp)
+	y, ok2 := stripConv(b).(*ssa.BinOp)
+	if !ok1 || !ok2 || x.Op != y.Op || depth > 4 {
+		return false
+	}
+	if c20Same(x.X, y.X, depth+1) && c20Same(x.Y, y.Y, depth+1) {
+		return true
+	}
+	switch x.Op {
+	case token.ADD, token.MUL, token.AND, token.OR, token.XOR:
+		return c20Same(x.X, y.Y, depth+1) && c20Same(x.Y, y.X, depth+1)
+	}
+	return false
+}
+
 func c20Blocks(path []int) string { return strings.Trim(fmt.Sprint(path), "[]") }
 
 // ---------------------------------------------------------------- R1
@@ -366,6 +390,10 @@ func c20R1(c *Ctx, p *Prog) {
 	for _, name := range names {
 		fn := pk.Func(name)
 		spec := c20Tun + "." + name
+		if len(fn.AnonFuncs) == 0 && c20Delegates(c, rule, spec, fn) {
+			n++
+			continue
+		}
 		if len(fn.AnonFuncs) != 1 {
 			c.Undec(rule, spec+"#shape", fn.Pos(), "%s does not consist of exactly one iterator closure", spec)
 			continue
@@ -374,6 +402,120 @@ func c20R1(c *Ctx, p *Prog) {
 		c20Tile(c, rule, spec, fn, fn.AnonFuncs[0])
 	}
 	c.Floor(rule, n, 2, "iter.Seq[Range] iterators in package tuning")
+}
+
+// c20Delegates: fn only forwards to another iterator constructor of the package (which is analysed itself):
+// its Range argument must be fn's own Range parameter or the literal {0, <int parameter>}.
+func c20Delegates(c *Ctx, rule, spec string, fn *ssa.Function) bool {
+	if len(fn.Blocks) != 1 {
+		return false
+	}
+	ret, ok := fn.Blocks[0].Instrs[len(fn.Blocks[0].Instrs)-1].(*ssa.Return)
+	if !ok || len(ret.Results) != 1 {
+		return false
+	}
+	call, g := c20OwnCallee(ret.Results[0])
+	if g == nil || len(g.AnonFuncs) != 1 || g.Pkg != fn.Pkg {
+		return false
+	}
+	good, seen := true, false
+	for _, a := range call.Call.Args {
+		if _, isStruct := a.Type().Underlying().(*types.Struct); !isStruct {
+			continue
+		}
+		seen = true
+		if prm, isP := a.(*ssa.Parameter); isP && prm.Parent() == fn {
+			continue
+		}
+		ld, isLd := a.(*ssa.UnOp)
+		var al *ssa.Alloc
+		if isLd && ld.Op == token.MUL {
+			al, _ = ld.X.(*ssa.Alloc)
+		}
+		vals := map[string]ssa.Value{}
+		if al != nil && al.Referrers() != nil {
+			for _, r := range *al.Referrers() {
+				if fa, ok := r.(*ssa.FieldAddr); ok && fa.Referrers() != nil {
+					f, _, _ := c20FieldOfAddr(fa)
+					for _, r2 := range *fa.Referrers() {
+						if st, ok := r2.(*ssa.Store); ok && st.Addr == ssa.Value(fa) {
+							vals[f.Name()] = st.Val
+						}
+					}
+				}
+			}
+		}
+		k, isC := constOf(vals["Start"])
+		_, endP := stripConv(vals["End"]).(*ssa.Parameter)
+		if vals["Start"] == nil && al != nil && vals["End"] != nil {
+			k, isC = 0, true // zero value of the literal
+		}
+		if !(isC && k == 0 && vals["End"] != nil && endP) {
+			good = false
+		}
+	}
+	if !seen || !good {
+		c.Undec(rule, spec+"#delegates", fn.Pos(), "%s forwards to %s but its Range argument is neither its own Range parameter nor the literal {0, n}", spec, fnName(g))
+		return true
+	}
+	c.Ok(rule, spec+"#delegates", fn.Pos(), "%s forwards its range ([0,n) or its own Range parameter) to the iterator %s, which is analysed itself", spec, fnName(g))
+	return true
+}
+
+// c20PositiveAtCallers: the captured step/width `v` of iterator constructor outer must be a positive constant at every call.
+func c20PositiveAtCallers(c *Ctx, rule, spec string, outer, cl *ssa.Function, v ssa.Value) {
+	fv, _ := c20Invariant(outer, cl, v)
+	idx := -1
+	for i, f := range cl.FreeVars {
+		if f == fv {
+			idx = i
+		}
+	}
+	var prm *ssa.Parameter
+	allInstrs(outer, func(in ssa.Instruction) {
+		if mc, ok := in.(*ssa.MakeClosure); ok && mc.Fn == cl && idx >= 0 {
+			if al, ok := mc.Bindings[idx].(*ssa.Alloc); ok && al.Referrers() != nil {
+				for _, r := range *al.Referrers() {
+					if st, ok := r.(*ssa.Store); ok && st.Addr == ssa.Value(al) {
+						prm, _ = st.Val.(*ssa.Parameter)
+					}
+				}
+			}
+		}
+	})
+	pi := -1
+	for i, q := range outer.Params {
+		if q == prm && prm != nil {
+			pi = i
+		}
+	}
+	exported := outer.Object() != nil && outer.Object().Exported()
+	nCalls, bad := 0, ""
+	if pi >= 0 && !exported && outer.Pkg != nil {
+		for _, m := range outer.Pkg.Members {
+			f, ok := m.(*ssa.Function)
+			if !ok {
+				continue
+			}
+			for _, g := range withClosures(f) {
+				allInstrs(g, func(in ssa.Instruction) {
+					ci, ok := in.(ssa.CallInstruction)
+					if !ok || ci.Common().StaticCallee() != outer || pi >= len(ci.Common().Args) {
+						return
+					}
+					nCalls++
+					if k, isC := constOf(ci.Common().Args[pi]); !isC || k <= 0 {
+						bad = fnName(g)
+					}
+				})
+			}
+		}
+	}
+	if pi < 0 || exported || nCalls == 0 || bad != "" {
+		c.Undec(rule, spec+"#step-positive", outer.Pos(), "step/width of %s is a parameter; cannot show that every caller passes a positive constant (exported=%v, %d calls, offending caller %q)", spec, exported, nCalls, bad)
+		return
+	}
+	c.Ok(rule, spec+"#step-positive", outer.Pos(), "step/width of %s is its parameter %s; all %d callers pass a positive constant", spec, prm.Name(), nCalls)
 }
 
 // c20Invariant: v is a load from a captured variable that nobody can modify while the iterator runs.
@@ -528,34 +670,64 @@ func c20Tile(c *Ctx, rule, spec string, outer, cl *ssa.Function) {
 	} else {
 		c.Undec(rule, spec+"#loop-cond", iff.Pos(), "loop runs while start <= bound: an extra (empty or out-of-range) Range is yielded at start == bound; tiling of [start,bound) not proven")
 	}
-	// step and width
-	step, ok := c20PlusConst(back, phi)
+	// step and width: start += S and End = start + W with S, W a constant or a captured, never re-assigned value
+	plus := func(v ssa.Value) (sym ssa.Value, k int64, ok bool) { // v == phi + sym | phi + k
+		t, k := c20LinC(v)
+		if t[phi] != 1 || len(t) > 2 {
+			return nil, 0, false
+		}
+		for l := range t {
+			if l != ssa.Value(phi) {
+				if _, inv := c20Invariant(outer, cl, l); !inv || t[l] != 1 || k != 0 {
+					return nil, 0, false
+				}
+				sym = l
+			}
+		}
+		return sym, k, true
+	}
+	stepSym, step, ok := plus(back)
 	toEnd := stripConv(back) == stripConv(endV) // start = end: adjacent by construction
 	if !ok && !toEnd {
-		und(back.Pos(), "loop variable is not advanced by start += constant (or start = end)")
+		und(back.Pos(), "loop variable is not advanced by start += constant/captured value (or start = end)")
 		return
 	}
 	var leaves []ssa.Value
 	c20MinLeaves(endV, &leaves)
-	clips, widths, unknown := 0, []int64{}, 0
+	clips, nW, unknown := 0, 0, 0
+	okW := toEnd || stepSym != nil || step > 0
+	desc := ""
+	var symW ssa.Value
 	for _, l := range leaves {
 		if sameValue(l, bound, 0) {
 			clips++
-		} else if w, ok := c20PlusConst(l, phi); ok {
-			widths = append(widths, w)
+		} else if ws, w, ok := plus(l); ok {
+			nW++
+			desc += fmt.Sprintf(" start+%d", w)
+			switch {
+			case toEnd:
+				okW = okW && (ws != nil || w > 0)
+			case ws != nil || stepSym != nil:
+				okW = okW && ws != nil && stepSym != nil && sameValue(ws, stepSym, 0)
+			default:
+				okW = okW && w == step
+			}
+			if ws != nil {
+				symW = ws
+				desc += "(captured)"
+			}
 		} else {
 			unknown++
 		}
 	}
-	if unknown > 0 || len(widths) == 0 {
+	if unknown > 0 || nW == 0 {
 		und(ycall.Pos(), "yielded End is not min(start+width, bound)")
 		return
 	}
-	okW := step > 0 || toEnd
-	for _, w := range widths {
-		okW = okW && (w == step || toEnd && w > 0)
+	c.Check(okW, rule, spec+"#step-width", back.Pos(), "start advances by %d/captured=%v, End =%s (must be the same positive amount: a smaller width leaves positions unprocessed, a larger one processes positions twice)", step, stepSym != nil, desc)
+	if symW != nil {
+		c20PositiveAtCallers(c, rule, spec, outer, cl, symW)
 	}
-	c.Check(okW, rule, spec+"#step-width", back.Pos(), "start advances by %d, End = start + %v (must be the same positive constant: a smaller width leaves positions unprocessed, a larger one processes positions twice)", step, widths)
 	c.Check(clips > 0, rule, spec+"#clip", ycall.Pos(), "yielded End clipped to the range end by min: %d clip term(s) (without it the last Range exceeds the range and Chunker.Open rejects it)", clips)
 	// init
 	if k, isC := constOf(init); isC {
@@ -563,7 +735,11 @@ func c20Tile(c *Ctx, rule, spec string, outer, cl *ssa.Function) {
 		c.Check(k == 0 && !isF, rule, spec+"#init", phi.Pos(), "start begins at constant %d (range is [0,bound): must be 0)", k)
 	} else if f, b, ok := c20FieldLoad(init); ok && b == fv && f.Name() == "Start" {
 		bf, bb, bok := c20FieldLoad(bound)
-		c.Check(bok && bb == fv && bf.Name() == "End", rule, spec+"#init", phi.Pos(), "start begins at Start and runs to End of the same captured Range")
+		if !bok {
+			c.Undec(rule, spec+"#init", phi.Pos(), "start begins at Start of the captured Range but the bound is not a field of it")
+		} else {
+			c.Check(bb == fv && bf.Name() == "End", rule, spec+"#init", phi.Pos(), "start begins at Start and runs to End of the same captured Range")
+		}
 	} else {
 		c.Undec(rule, spec+"#init", phi.Pos(), "initial value of start is neither 0 nor the Start field of the captured Range")
 	}
@@ -721,7 +897,7 @@ func c20Manifest(c *Ctx, p *Prog) (acc c20Acc) {
 		bl := c20Linear(back)
 		sameBack := back == lenStore.v || (c20Take(&bl.pos, isLen) != nil && len(bl.pos) == 1 && bl.pos[0] == phi && len(bl.neg) == 0 && bl.k == l.k)
 		if !(isC && k0 == 0) || stripConv(other.v) != phi || !sameBack {
-			c.Fail(rule, key, lenStore.v.Pos(), "manifest entry is not {curr, curr+len(line)+K} with curr starting at 0 and advancing to that end: entries would overlap or leave gaps in the file")
+			c.Undec(rule, key, lenStore.v.Pos(), "manifest entry not recognised as {curr, curr+len(line)+K} with curr starting at 0 and advancing to that end")
 			return
 		}
 		acc.mode, acc.K, acc.endF, acc.startF = "acc", l.k, lenStore.f, other.f
@@ -783,101 +959,301 @@ func c20Manifest(c *Ctx, p *Prog) (acc c20Acc) {
 // ---------------------------------------------------------------- R5f: Chunker.Open
 
 type c20OpenInfo struct {
-	si         *ssa.Function
-	xIdx, nIdx int
+	fn         *ssa.Function
+	si         *ssa.Function  // the permutation shuffleIndex (callee whose result indexes the manifest)
+	call       *ssa.Call      // its call in Open
+	ia         *ssa.IndexAddr // manifest[perm]
+	fldM       *types.Var
+	baseM      ssa.Value
+	xIdx, nIdx int       // parameter roles of si, derived inside si by c20R3 (-1 unknown)
+	via        *ssa.Call // when manifest[perm] sits in a straight-line helper: the helper's call in Open
 	chunkLines *types.Var
 }
 
+// c20LinC flattens an integer expression over + and - into coefficients of opaque leaves;
+// len(make([]T, n)) is expanded to n.
+func c20LinC(v ssa.Value) (t map[ssa.Value]int64, k int64) {
+	t = map[ssa.Value]int64{}
+	var walk func(v ssa.Value, sign int64)
+	walk = func(v ssa.Value, sign int64) {
+		v = stripConv(v)
+		if cst, isC := v.(*ssa.Const); isC {
+			if kk, ok := constOf(cst); ok {
+				k += sign * kk
+				return
+			}
+		}
+		if b, ok := v.(*ssa.BinOp); ok && (b.Op == token.ADD || b.Op == token.SUB) {
+			walk(b.X, sign)
+			if b.Op == token.ADD {
+				walk(b.Y, sign)
+			} else {
+				walk(b.Y, -sign)
+			}
+			return
+		}
+		if x := c20LenOf(v); x != nil {
+			if mk, ok := x.(*ssa.MakeSlice); ok {
+				walk(mk.Len, sign)
+				return
+			}
+		}
+		t[v] += sign
+		if t[v] == 0 {
+			delete(t, v)
+		}
+	}
+	walk(v, 1)
+	return
+}
+
+func c20AddLin(a map[ssa.Value]int64, ak int64, b map[ssa.Value]int64, bk int64, sign int64) (map[ssa.Value]int64, int64) {
+	out := map[ssa.Value]int64{}
+	for v, c := range a {
+		out[v] = c
+	}
+	for v, c := range b {
+		out[v] += sign * c
+		if out[v] == 0 {
+			delete(out, v)
+		}
+	}
+	return out, ak + sign*bk
+}
+
+// c20OnlyParams: all leaves are parameters (the expression is fully understood).
+func c20OnlyParams(t map[ssa.Value]int64) bool {
+	for v := range t {
+		if _, ok := v.(*ssa.Parameter); !ok {
+			return false
+		}
+	}
+	return true
+}
+
+func c20SingleParam(t map[ssa.Value]int64, k int64) *ssa.Parameter {
+	if k != 0 || len(t) != 1 {
+		return nil
+	}
+	for v, c := range t {
+		if p, ok := v.(*ssa.Parameter); ok && c == 1 {
+			return p
+		}
+	}
+	return nil
+}
+
+func c20LinText(t map[ssa.Value]int64, k int64) string {
+	var parts []string
+	for v, c := range t {
+		parts = append(parts, fmt.Sprintf("%+d*%s", c, v.Name()))
+	}
+	sort.Strings(parts)
+	return fmt.Sprintf("%s%+d", strings.Join(parts, ""), k)
+}
+
+// c20Open locates manifest[perm(...)] in Open; the call-site obligations are checked by c20OpenArgs once
+// the parameter roles of perm are known.
 func c20Open(c *Ctx, p *Prog, acc c20Acc) (op c20OpenInfo) {
 	const rule = "C20.R5"
 	spec := c20Epd + ".(Chunker).Open"
+	op.xIdx, op.nIdx = -1, -1
 	fn := p.Func(spec)
 	if fn == nil {
 		c.Anchor(rule, spec)
 		return
 	}
+	op.fn = fn
 	key := spec + "#shuffle-map"
-	und := func(pos token.Pos, format string, args ...any) {
-		c.Undec(rule, key, pos, "Open not understood: "+format, args...)
-	}
-	var ia *ssa.IndexAddr
-	var call *ssa.Call
 	n := 0
 	allInstrs(fn, func(in ssa.Instruction) {
 		if x, ok := in.(*ssa.IndexAddr); ok {
 			if cl, callee := c20OwnCallee(x.Index); callee != nil {
-				ia, call, op.si = x, cl, callee
+				op.ia, op.call, op.si = x, cl, callee
 				n++
 			}
 		}
 	})
+	if n == 0 {
+		// manifest[perm(...)] extracted into a straight-line helper called from Open
+		allInstrs(fn, func(in ssa.Instruction) {
+			hc, h := c20OwnCallee(valueOf(in))
+			if h == nil || len(h.Blocks) != 1 {
+				return
+			}
+			allInstrs(h, func(in2 ssa.Instruction) {
+				if x, ok := in2.(*ssa.IndexAddr); ok {
+					if cl, callee := c20OwnCallee(x.Index); callee != nil {
+						op.ia, op.call, op.si, op.via = x, cl, callee, hc
+						n++
+					}
+				}
+			})
+		})
+	}
 	if n != 1 {
 		op.si = nil
-		und(fn.Pos(), "%d index expressions manifest[f(...)] (want 1)", n)
+		c.Undec(rule, key, fn.Pos(), "Open not understood: %d index expressions manifest[f(...)] (want 1)", n)
 		return
 	}
-	fldM, baseM, ok := c20FieldLoad(ia.X)
+	var ok bool
+	op.fldM, op.baseM, ok = c20FieldLoad(op.ia.X)
 	if !ok {
-		und(ia.Pos(), "indexed slice is not a field of the receiver")
+		op.si = nil
+		c.Undec(rule, key, op.ia.Pos(), "Open not understood: indexed slice is not a field of the receiver")
 		return
 	}
-	if acc.ok && fldM != acc.manifest {
-		c.Fail(rule, key, ia.Pos(), "Open indexes Chunker.%s but NewChunker fills Chunker.%s", fldM.Name(), acc.manifest.Name())
+	if acc.ok && op.fldM != acc.manifest {
+		c.Fail(rule, key+"-field", op.ia.Pos(), "Open indexes Chunker.%s but NewChunker fills Chunker.%s", op.fldM.Name(), acc.manifest.Name())
+	}
+	return
+}
+
+func c20OpenArgs(c *Ctx, p *Prog, op c20OpenInfo) (chunkLines *types.Var) {
+	const rule = "C20.R5"
+	spec := c20Epd + ".(Chunker).Open"
+	key := spec + "#shuffle-map"
+	fn, call, ia := op.fn, op.call, op.ia
+	und := func(pos token.Pos, format string, args ...any) {
+		c.Undec(rule, key, pos, "Open not understood: "+format, args...)
+	}
+	if op.xIdx < 0 || op.nIdx < 0 || op.xIdx >= len(call.Call.Args) || op.nIdx >= len(call.Call.Args) {
+		und(call.Pos(), "the roles (index, size) of the parameters of %s were not recognised", fnName(op.si))
 		return
 	}
-	op.xIdx, op.nIdx = -1, -1
-	var ixPhi *ssa.Phi
-	var others []ssa.Value
-	for i, a := range call.Call.Args {
-		a = stripConv(a)
-		if phi, _, _, _, ok := c20LoopPhi(a); ok && op.xIdx < 0 {
-			op.xIdx, ixPhi = i, phi
-		} else if x := c20LenOf(a); x != nil && c20IsLoadOf(x, fldM, baseM) && op.nIdx < 0 {
-			op.nIdx = i
+	siName := fnName(op.si)
+	// size argument = len(manifest)
+	nArg := stripConv(call.Call.Args[op.nIdx])
+	if x := c20LenOf(nArg); x == nil || !c20IsLoadOf(x, op.fldM, op.baseM) {
+		t, k := c20LinC(nArg)
+		hasLen := false
+		for v := range t {
+			if x := c20LenOf(v); x != nil && c20IsLoadOf(x, op.fldM, op.baseM) {
+				hasLen = true
+				delete(t, v)
+			}
+		}
+		if c20OnlyParams(t) && (len(t) > 0 || k != 0 || !hasLen) {
+			c.Fail(rule, key, call.Pos(), "size argument of %s is %s, not len(%s): the permutation is not over exactly the manifest's index set (lines beyond n are never processed / indices repeat)", siName, c20LinText(c20LinC(nArg)), op.fldM.Name())
 		} else {
-			others = append(others, a)
+			und(call.Pos(), "size argument of %s is not recognisably len(%s)", siName, op.fldM.Name())
+		}
+		return
+	}
+	// when the call sits in a helper, its arguments are rewritten in Open's terms (helper parameters -> arguments)
+	site := call // the instruction executed once per iteration in Open
+	inOpen := func(t map[ssa.Value]int64, k int64) (map[ssa.Value]int64, int64) { return t, k }
+	if op.via != nil {
+		site = op.via
+		h := call.Parent()
+		inOpen = func(t map[ssa.Value]int64, k int64) (map[ssa.Value]int64, int64) {
+			out := map[ssa.Value]int64{}
+			for v, cf := range t {
+				done := false
+				for i, prm := range h.Params {
+					if v == ssa.Value(prm) && i < len(op.via.Call.Args) {
+						at, ak := c20LinC(op.via.Call.Args[i])
+						out, k = c20AddLin(out, k, at, ak, cf)
+						done = true
+					}
+				}
+				if !done {
+					out[v] += cf
+				}
+			}
+			return out, k
 		}
 	}
-	if op.xIdx < 0 {
-		c.Fail(rule, key, call.Pos(), "no argument of %s is the loop index: the chunk does not enumerate its indices", fnName(op.si))
+	// index argument = p + dx for a counting loop variable p
+	xt, xk := inOpen(c20LinC(call.Call.Args[op.xIdx]))
+	var ph *ssa.Phi
+	var init, back ssa.Value
+	var latch *ssa.BasicBlock
+	for v, cf := range xt {
+		if q, i, b, l, ok := c20LoopPhi(v); ok && cf == 1 && ph == nil {
+			ph, init, back, latch = q, i, b, l
+		}
+	}
+	if ph == nil {
+		if c20OnlyParams(xt) {
+			c.Fail(rule, key, call.Pos(), "index argument of %s is %s and does not vary with a loop: the chunk does not enumerate its indices", siName, c20LinText(xt, xk))
+		} else {
+			und(call.Pos(), "index argument of %s is not <loop variable> + <invariant>", siName)
+		}
 		return
 	}
-	if op.nIdx < 0 {
-		c.Fail(rule, key, call.Pos(), "no argument of %s is len(%s): the permutation is not over exactly the manifest's index set (lines beyond n are never processed / indices repeat)", fnName(op.si), fldM.Name())
+	delete(xt, ssa.Value(ph)) // xt,xk is now dx
+	phPos := ph.Pos()
+	if !phPos.IsValid() { // range loops have synthetic induction variables
+		phPos = site.Pos()
+	}
+	step, okStep := c20PlusConst(back, ph)
+	iff, truth, okStay := c20Stay(ph.Block(), latch)
+	if !okStep || !okStay {
+		und(phPos, "loop of the index variable is not a counting loop tested in its header")
 		return
 	}
-	_, init, back, latch, _ := c20LoopPhi(ixPhi)
-	_, lo := init.(*ssa.Parameter)
-	step, okStep := c20PlusConst(back, ixPhi)
-	iff, truth, okStay := c20Stay(ixPhi.Block(), latch)
-	var hi ssa.Value
-	strict := false
-	if okStay {
-		var a ssa.Value
-		a, hi, strict, okStay = c20Rel(iff.Cond, truth)
-		okStay = okStay && a == ixPhi
-	}
-	_, hiP := hi.(*ssa.Parameter)
-	if !lo || !okStep || !okStay || !hiP || hi == init {
-		und(ixPhi.Pos(), "index loop is not `for ix := <param>; ix < <param>; ix += k`")
+	ca, cb, strict, okRel := c20Rel(iff.Cond, truth)
+	if !okRel {
+		und(iff.Pos(), "loop test is not an order comparison")
 		return
 	}
-	if step != 1 || !strict {
-		c.Fail(rule, key, ixPhi.Pos(), "index loop must visit exactly start <= ix < end with step 1 (found step %d, strict=%v): the chunk ranges produced by Batches/Chunks are half-open and adjacent", step, strict)
+	at, ak := c20LinC(ca)
+	bt, bk := c20LinC(cb)
+	if at[ph] != 1 || bt[ph] != 0 {
+		und(iff.Pos(), "loop test is not <loop variable> + c < bound")
 		return
 	}
-	if !call.Block().Dominates(latch) {
-		und(call.Pos(), "the permutation call is not executed on every iteration")
+	delete(at, ssa.Value(ph))
+	// body runs for p >= init with p + (at,ak) < (bt,bk): p in [init, bound - a); arguments x = p + dx
+	it, ik := c20LinC(init)
+	ut, uk := c20AddLin(bt, bk, at, ak, -1)
+	if !strict {
+		uk++
+	}
+	rng := func(dt map[ssa.Value]int64, dk int64) (lt map[ssa.Value]int64, lk int64, ht map[ssa.Value]int64, hk int64) {
+		lt, lk = c20AddLin(it, ik, dt, dk, 1)
+		ht, hk = c20AddLin(ut, uk, dt, dk, 1)
 		return
 	}
-	for _, o := range others {
+	lt, lk, ht, hk := rng(xt, xk)
+	staySucc := ph.Block().Succs[0]
+	if !truth {
+		staySucc = ph.Block().Succs[1]
+	}
+	if !staySucc.Dominates(site.Block()) || !site.Block().Dominates(latch) {
+		und(call.Pos(), "the permutation call is not executed exactly once per iteration")
+		return
+	}
+	lo, hi := c20SingleParam(lt, lk), c20SingleParam(ht, hk)
+	if step != 1 || lo == nil || hi == nil || lo == hi {
+		if c20OnlyParams(lt) && c20OnlyParams(ht) {
+			c.Fail(rule, key, phPos, "the indices passed to %s are [%s, %s) step %d, not exactly [start, end) of two parameters with step 1: the chunk ranges produced by Batches/Chunks are half-open and adjacent", siName, c20LinText(lt, lk), c20LinText(ht, hk), step)
+		} else {
+			und(phPos, "range of the indices passed to %s not understood: [%s, %s)", siName, c20LinText(lt, lk), c20LinText(ht, hk))
+		}
+		return
+	}
+	for i, o := range call.Call.Args {
+		if i == op.xIdx || i == op.nIdx {
+			continue
+		}
 		sl := backSlice(o, sliceOpts{ThroughCalls: true, ThroughLoads: true})
-		if sl[ixPhi] {
-			c.Fail(rule, key, call.Pos(), "seed argument of %s depends on the loop index: different indices are mapped by different permutations", fnName(op.si))
+		if op.via != nil {
+			for i, prm := range call.Parent().Params {
+				if sl[prm] && i < len(op.via.Call.Args) {
+					for v := range backSlice(op.via.Call.Args[i], sliceOpts{ThroughCalls: true, ThroughLoads: true}) {
+						sl[v] = true
+					}
+				}
+			}
+		}
+		if sl[ph] {
+			c.Fail(rule, key, call.Pos(), "seed argument of %s depends on the loop index: different indices are mapped by different permutations", siName)
 			return
 		}
 	}
-	// manifest[perm] is appended and becomes Chunk.chunkLines
+	// manifest[perm] lands in the chunk's line list: appended, or stored into slot j of a list of exactly that many slots
 	var elem ssa.Value
 	if ia.Referrers() != nil {
 		for _, r := range *ia.Referrers() {
@@ -886,125 +1262,369 @@ func c20Open(c *Ctx, p *Prog, acc c20Acc) (op c20OpenInfo) {
 			}
 		}
 	}
-	var accPhi *ssa.Phi
-	var app *ssa.Call
-	if elem != nil {
-		accPhi, app = c20AppendOf(elem)
+	if elem != nil && op.via != nil {
+		// the helper must hand the element back
+		h := call.Parent()
+		ret, isRet := h.Blocks[0].Instrs[len(h.Blocks[0].Instrs)-1].(*ssa.Return)
+		if isRet && len(ret.Results) == 1 && ret.Results[0] == elem {
+			elem = op.via
+		} else {
+			elem = nil
+		}
 	}
-	if accPhi == nil || accPhi.Block() != ixPhi.Block() || !app.Block().Dominates(latch) {
-		und(ia.Pos(), "manifest[perm(ix)] is not appended to the chunk's line list on every iteration")
+	if elem == nil {
+		und(ia.Pos(), "manifest[perm(ix)] is not read (or not returned by the helper)")
 		return
 	}
-	if op.chunkLines = c20StoredField(accPhi); op.chunkLines == nil {
-		und(app.Pos(), "collected lines are not stored into the returned Chunk")
+	how := ""
+	var list ssa.Value
+	if accPhi, app := c20AppendOf(elem); accPhi != nil {
+		if accPhi.Block() != ph.Block() || !app.Block().Dominates(latch) {
+			und(ia.Pos(), "manifest[perm(ix)] is not appended to the chunk's line list on every iteration")
+			return
+		}
+		how, list = "appended", accPhi
+	} else if elem.Referrers() != nil {
+		for _, r := range *elem.Referrers() {
+			st, ok := r.(*ssa.Store)
+			if !ok || st.Val != elem {
+				continue
+			}
+			slot, ok := st.Addr.(*ssa.IndexAddr)
+			if !ok {
+				continue
+			}
+			mk, ok := slot.X.(*ssa.MakeSlice)
+			if !ok || !st.Block().Dominates(latch) {
+				continue
+			}
+			jt, jk := c20LinC(slot.Index)
+			if jt[ph] != 1 {
+				continue
+			}
+			delete(jt, ssa.Value(ph))
+			slt, slk, sht, shk := rng(jt, jk)
+			nt, nk := c20LinC(mk.Len)
+			dt, dk := c20AddLin(sht, shk, nt, nk, -1)
+			if len(slt) == 0 && slk == 0 && len(dt) == 0 && dk == 0 {
+				how, list = "stored into slot ix-start of a list of end-start slots", mk
+			} else if c20OnlyParams(slt) && c20OnlyParams(dt) {
+				c.Fail(rule, key, st.Pos(), "slots [%s, %s) are filled but the list has %s slots: unfilled slots are zero line addresses / slots are overwritten", c20LinText(slt, slk), c20LinText(sht, shk), c20LinText(nt, nk))
+				return
+			}
+		}
+	}
+	if list == nil {
+		und(ia.Pos(), "manifest[perm(ix)] is neither appended to the chunk's line list nor stored into its own slot on every iteration")
 		return
 	}
-	c.Ok(rule, key, call.Pos(), "for start <= ix < end (parameters, step 1): %s[%s(ix, len(%s), seed independent of ix)] appended on every iteration, result stored in Chunk.%s", fldM.Name(), fnName(op.si), fldM.Name(), op.chunkLines.Name())
+	if chunkLines = c20StoredField(list); chunkLines == nil {
+		und(ia.Pos(), "collected lines are not stored into the returned Chunk")
+		return
+	}
+	_ = fn
+	c.Ok(rule, key, call.Pos(), "indices passed to %s are exactly [%s, %s) step 1; size = len(%s); other arguments independent of the index; %s[perm] %s on every iteration, list stored in Chunk.%s", siName, lo.Name(), hi.Name(), op.fldM.Name(), op.fldM.Name(), how, chunkLines.Name())
 	return
 }
 
 // ---------------------------------------------------------------- R3: cycle walking in shuffleIndex
 
-func c20R3(c *Ctx, p *Prog, op c20OpenInfo) {
+// c20R3 checks cycle walking over the execution paths of shuffleIndex (rejection loop unrolled twice), so
+// `for { y := perm(x); if y < n { return y }; x = y }` and `y := perm(x); for y >= n { y = perm(y) }; return y`
+// are the same to it. The permutation pf (the one chess-3 function shuffleIndex calls) stays opaque.
+type c20PermCall struct {
+	call  *ssa.Call
+	args  []ssa.Value // resolved at the time of the call (masks stripped)
+	masks []ssa.Value // width of a mask (1<<w)-1 applied to the argument, nil if none
+}
+
+type c20WalkFact struct {
+	a, b       ssa.Value
+	strict     bool
+	afterCalls int
+}
+
+type c20WalkPath struct {
+	calls []c20PermCall
+	facts []c20WalkFact
+	ret   *ssa.Return
+	val   ssa.Value // returned value, resolved
+}
+
+func c20R3(c *Ctx, p *Prog, op *c20OpenInfo) {
 	const rule = "C20.R3"
 	si := op.si
 	spec := fnName(si)
-	if op.xIdx >= len(si.Params) || op.nIdx >= len(si.Params) {
-		c.Undec(rule, spec+"#shape", si.Pos(), "parameter roles do not map onto %s", spec)
-		return
+	und := func(format string, args ...any) {
+		c.Undec(rule, spec+"#shape", si.Pos(), "cycle walking not understood: "+format, args...)
 	}
-	x, n := si.Params[op.xIdx], si.Params[op.nIdx]
-	// the permutation call: own callee fed with a loop phi that starts at x
-	var y *ssa.Call
+	// the permutation: the one chess-3 function called (statically) by shuffleIndex
 	var pf *ssa.Function
-	var xPhi *ssa.Phi
-	var xBack ssa.Value
-	pfX, cnt := -1, 0
+	multi := false
 	allInstrs(si, func(in ssa.Instruction) {
-		call, callee := c20OwnCallee(valueOf(in))
-		if callee == nil {
-			return
-		}
-		for i, a := range call.Call.Args {
-			if phi, init, back, _, ok := c20LoopPhi(stripConv(a)); ok && init == x {
-				y, pf, xPhi, xBack, pfX = call, callee, phi, back, i
-				cnt++
+		if _, callee := c20OwnCallee(valueOf(in)); callee != nil {
+			if pf != nil && pf != callee {
+				multi = true
 			}
+			pf = callee
 		}
 	})
-	if cnt != 1 {
-		c.Undec(rule, spec+"#shape", si.Pos(), "%d calls perm(x', ...) with x' a loop variable starting at the index parameter (want 1)", cnt)
+	if pf == nil || multi {
+		und("shuffleIndex does not call exactly one chess-3 function (the permutation)")
 		return
 	}
-	bitsIdx, okF := c20Feistel(c, p, pf, pfX)
-	// every return is in range
-	nret := 0
-	for _, b := range si.Blocks {
-		ret, ok := b.Instrs[len(b.Instrs)-1].(*ssa.Return)
-		if !ok || len(ret.Results) != 1 {
-			continue
+	var paths []c20WalkPath
+	w := &c20Walker{maxVisit: 2, noInline: func(f *ssa.Function) bool { return f == pf }}
+	w.interest = func(in ssa.Instruction) bool {
+		call, ok := in.(*ssa.Call)
+		return ok && call.Call.StaticCallee() == pf
+	}
+	w.annot = func(st *c20Step) {
+		switch x := st.in.(type) {
+		case *ssa.Call:
+			pc := c20PermCall{call: x}
+			for _, a := range x.Call.Args {
+				_, v := w.resolve(st.fr, a)
+				var mw ssa.Value
+				if part, mk, ok := c20Masked(v); ok {
+					_, v = w.resolve(st.fr, part)
+					mw = mk
+				}
+				pc.args, pc.masks = append(pc.args, v), append(pc.masks, mw)
+			}
+			st.note = pc
+		case *ssa.If:
+			fr, cond := w.resolve(st.fr, x.Cond)
+			if a, b, strict, ok := c20Rel(cond, st.truth); ok {
+				_, a = w.resolve(fr, a)
+				_, b = w.resolve(fr, b)
+				st.note = c20WalkFact{a: a, b: b, strict: strict}
+			} else if eq, isB := cond.(*ssa.BinOp); isB && eq.Op == token.EQL && st.truth {
+				// n == c is n <= c as far as the small-n guard is concerned
+				_, a := w.resolve(fr, eq.X)
+				_, b := w.resolve(fr, eq.Y)
+				st.note = c20WalkFact{a: a, b: b}
+			}
+		case *ssa.Return:
+			if len(x.Results) == 1 {
+				_, v := w.resolve(st.fr, returnedValue(x, 0))
+				st.note = v
+			}
 		}
-		nret++
-		v := stripConv(ret.Results[0])
-		conds := controllingConds(b)
-		if k, isC := constOf(v); isC {
-			if _, isConst := v.(*ssa.Const); isConst {
-				guard := false
-				for _, ce := range conds {
-					if a, bb, strict, ok := c20Rel(ce.Cond, ce.True); ok && a == n {
-						if lim, isC := constOf(bb); isC && (strict && lim <= 2 || !strict && lim <= 1) {
-							guard = true
-						}
+	}
+	w.done = func(path []c20Step, ret *ssa.Return, root *c20Frame) {
+		wp := c20WalkPath{ret: ret}
+		for _, st := range path {
+			switch n := st.note.(type) {
+			case c20PermCall:
+				wp.calls = append(wp.calls, n)
+			case c20WalkFact:
+				n.afterCalls = len(wp.calls)
+				wp.facts = append(wp.facts, n)
+			case ssa.Value:
+				if st.in == ssa.Instruction(ret) {
+					wp.val = n
+				}
+			}
+		}
+		paths = append(paths, wp)
+	}
+	w.run(si)
+	if w.aborted || len(paths) == 0 {
+		und("%d paths, aborted=%v", len(paths), w.aborted)
+		return
+	}
+	// the walked argument: the one that is the previous output in a repeated call
+	pfX := -1
+	for _, wp := range paths {
+		for j := 1; j < len(wp.calls); j++ {
+			for i, a := range wp.calls[j].args {
+				if a == ssa.Value(wp.calls[j-1].call) {
+					pfX = i
+				}
+			}
+		}
+	}
+	var first *c20PermCall
+	for i := range paths {
+		if len(paths[i].calls) > 0 {
+			first = &paths[i].calls[0]
+		}
+	}
+	if first == nil {
+		und("no path calls the permutation")
+		return
+	}
+	refeedBad, refeedUnd := "", ""
+	if pfX < 0 {
+		// no repeated call feeds the previous output: broken re-feed, or no rejection loop at all
+		for _, wp := range paths {
+			for j := 1; j < len(wp.calls); j++ {
+				dep := false
+				for _, raw := range wp.calls[j].call.Call.Args {
+					dep = dep || backSlice(raw, sliceOpts{ThroughCalls: true})[wp.calls[j-1].call]
+				}
+				if dep {
+					refeedUnd = "a repeated permutation call derives its input from the previous output in a way that is not understood"
+				} else {
+					refeedBad = "on rejection the next permutation input does not derive from the previous output: cycle walking needs x <- perm(x); any other value makes two indices collide"
+				}
+			}
+		}
+		if refeedBad == "" && refeedUnd == "" {
+			und("the permutation is never called a second time (no rejection loop found)")
+			return
+		}
+		// find the walked argument by elimination for the remaining checks: the first argument that is a parameter
+		for i, a := range first.args {
+			if _, isP := a.(*ssa.Parameter); isP && pfX < 0 {
+				pfX = i
+			}
+		}
+		if pfX < 0 {
+			pfX = 0
+		}
+	}
+	x, _ := first.args[pfX].(*ssa.Parameter)
+	bitsIdx, okF := c20Feistel(c, p, pf, pfX)
+	var bitsArg ssa.Value
+	if okF && bitsIdx < len(first.args) {
+		bitsArg = first.args[bitsIdx]
+	}
+	var n *ssa.Parameter
+	// per path: inputs of the calls, returned value
+	type verdict struct{ bad, und string }
+	inRange := map[token.Pos]verdict{}
+	nret := map[token.Pos]bool{}
+	for _, wp := range paths {
+		for j, pc := range wp.calls {
+			for i, a := range pc.args {
+				switch {
+				case i == pfX && j == 0:
+					if a != ssa.Value(x) || x == nil {
+						refeedUnd = "the first permutation input is not the index parameter"
 					}
-					if eq, ok := ce.Cond.(*ssa.BinOp); ok && eq.Op == token.EQL && ce.True && stripConv(eq.X) == n {
-						if lim, isC := constOf(eq.Y); isC && lim <= 1 {
-							guard = true
-						}
+				case i == pfX:
+					if a != ssa.Value(wp.calls[j-1].call) && refeedBad == "" && refeedUnd == "" {
+						refeedUnd = "a repeated permutation call does not take the previous output as input on some path"
+					}
+					if mw := pc.masks[i]; mw != nil && bitsArg != nil && !c20Same(mw, bitsArg, 0) {
+						refeedUnd = "the re-fed output is masked with a mask whose width is not the permutation's bit count"
+					}
+				case a != first.args[i] && !c20Same(a, first.args[i], 0):
+					if backSlice(pc.call.Call.Args[i], sliceOpts{ThroughCalls: true})[wp.calls[0].call] || (x != nil && backSlice(pc.call.Call.Args[i], sliceOpts{ThroughCalls: true})[x]) {
+						refeedBad = fmt.Sprintf("argument %d of %s depends on the walked index: not one permutation for all indices", i, fnName(pf))
+					} else {
+						refeedUnd = fmt.Sprintf("argument %d of %s is not the same value in every call", i, fnName(pf))
 					}
 				}
-				c.Check(k == 0 && guard, rule, spec+"#small-n", ret.Pos(), "constant %d is returned only under a guard that implies n <= 1 (for n >= 2 a constant result maps several indices to one line)", k)
-				continue
 			}
 		}
-		inRange := false
-		for _, ce := range conds {
-			if a, bb, strict, ok := c20Rel(ce.Cond, ce.True); ok && strict && a == v && bb == n {
-				inRange = true
-			}
-		}
-		if v != ssa.Value(y) {
-			c.Undec(rule, spec+"#returns-in-range", ret.Pos(), "returned value is not the permutation output")
-		} else {
-			c.Check(inRange, rule, spec+"#returns-in-range", ret.Pos(), "permutation output is returned only where y < n holds (otherwise an index outside the manifest is produced and another one is never produced)")
-		}
-	}
-	// re-feed
-	part, w := xBack, ssa.Value(nil)
-	if pt, mw, ok := c20Masked(xBack); ok {
-		part, w = pt, mw
-	}
-	var bitsArg ssa.Value
-	if okF && bitsIdx < len(y.Call.Args) {
-		bitsArg = y.Call.Args[bitsIdx]
-	}
-	switch {
-	case stripConv(part) != ssa.Value(y):
-		c.Fail(rule, spec+"#refeed", xBack.Pos(), "on rejection the next input is not the previous permutation output: cycle walking needs x <- perm(x); any other value makes two indices collide")
-	case w != nil && (bitsArg == nil || !sameValue(w, bitsArg, 0)):
-		c.Undec(rule, spec+"#refeed", xBack.Pos(), "re-fed output is masked with a mask whose width is not the permutation's bit count")
-	default:
-		c.Ok(rule, spec+"#refeed", xBack.Pos(), "rejected output y is fed back as the next input (mask = full domain)")
-	}
-	_ = xPhi
-	// key arguments independent of the walked value
-	for i, a := range y.Call.Args {
-		if i == pfX {
+		if wp.val == nil {
 			continue
 		}
-		if sl := backSlice(a, sliceOpts{ThroughCalls: true, ThroughLoads: true}); sl[xPhi] || sl[x] {
-			c.Fail(rule, spec+"#refeed", y.Pos(), "argument %d of %s depends on the walked index: not one permutation for all indices", i, fnName(pf))
+		nret[wp.ret.Pos()] = true
+		if _, isC := wp.val.(*ssa.Const); isC {
+			continue // judged below, once n is known
+		}
+		v := inRange[wp.ret.Pos()]
+		if len(wp.calls) == 0 || wp.val != ssa.Value(wp.calls[len(wp.calls)-1].call) {
+			v.und = "returned value is not the output of the last permutation call"
+		} else {
+			strict, loose := false, false
+			for _, f := range wp.facts {
+				if prm, isP := f.b.(*ssa.Parameter); isP && f.a == wp.val && f.afterCalls == len(wp.calls) {
+					n = prm
+					if f.strict {
+						strict = true
+					} else {
+						loose = true
+					}
+				}
+			}
+			switch {
+			case strict:
+			case loose:
+				v.bad = "permutation output is returned where only y <= n holds: the index n lies outside the manifest and another index is never produced"
+			default:
+				v.und = "no comparison y < n between the last permutation call and the return of its output"
+			}
+		}
+		inRange[wp.ret.Pos()] = v
+	}
+	if x != nil && bitsArg != nil {
+		for i, a := range first.args {
+			if i != pfX && backSlice(first.call.Call.Args[i], sliceOpts{ThroughCalls: true})[x] {
+				_ = a
+				refeedBad = fmt.Sprintf("argument %d of %s depends on the index: not one permutation for all indices", i, fnName(pf))
+			}
 		}
 	}
+	var keys []token.Pos
+	for k := range inRange {
+		keys = append(keys, k)
+	}
+	sort.Slice(keys, func(i, j int) bool { return keys[i] < keys[j] })
+	for _, k := range keys {
+		switch v := inRange[k]; {
+		case v.bad != "":
+			c.Fail(rule, spec+"#returns-in-range", k, "%s", v.bad)
+		case v.und != "":
+			c.Undec(rule, spec+"#returns-in-range", k, "%s", v.und)
+		default:
+			c.Ok(rule, spec+"#returns-in-range", k, "on every path the returned value is the last permutation output y and y < n was established after that call")
+		}
+	}
+	switch {
+	case refeedBad != "":
+		c.Fail(rule, spec+"#refeed", first.call.Pos(), "%s", refeedBad)
+	case refeedUnd != "":
+		c.Undec(rule, spec+"#refeed", first.call.Pos(), "%s", refeedUnd)
+	default:
+		c.Ok(rule, spec+"#refeed", first.call.Pos(), "on all %d paths the first input is the index parameter, every further input is the previous output (optionally masked to the full domain), the other arguments never change", len(paths))
+	}
+	if x == nil || n == nil || n == x {
+		und("index/size parameters not identified (no return of a permutation output guarded by y < n)")
+		return
+	}
+	for i, prm := range si.Params {
+		if prm == x {
+			op.xIdx = i
+		}
+		if prm == n {
+			op.nIdx = i
+		}
+	}
+	// constant returns: only under a guard that implies n <= 1
+	for _, wp := range paths {
+		cst, isC := wp.val.(*ssa.Const)
+		if !isC {
+			continue
+		}
+		k, _ := constOf(cst)
+		guard, wide := false, false
+		for _, f := range wp.facts {
+			if f.a != ssa.Value(n) {
+				continue
+			}
+			if lim, isK := constOf(f.b); isK {
+				if f.strict && lim <= 2 || !f.strict && lim <= 1 {
+					guard = true
+				} else {
+					wide = true
+				}
+			}
+		}
+		switch {
+		case guard && k == 0:
+			c.Ok(rule, spec+"#small-n", wp.ret.Pos(), "constant 0 is returned only under a guard that implies n <= 1")
+		case guard || wide:
+			c.Fail(rule, spec+"#small-n", wp.ret.Pos(), "constant %d is returned under a size guard that admits n >= 2 (or a non-zero constant for n = 1): several indices map to one line / an index outside [0,n) is produced", k)
+		default:
+			c.Undec(rule, spec+"#small-n", wp.ret.Pos(), "constant %d is returned under a condition that is not recognised as a guard n <= 1", k)
+		}
+	}
+	y := first.call
 	// domain size
 	if bitsArg != nil {
 		ok := false
@@ -1035,8 +1655,12 @@ func c20R3(c *Ctx, p *Prog, op c20OpenInfo) {
 	for _, s := range eff.Nondet {
 		bad = append(bad, s.What)
 	}
-	c.Check(len(bad) == 0, rule, spec+"#pure", si.Pos(), "closure of %s (%d functions) is a function of its arguments only %v — every client and every call must see the same permutation", spec, len(fns), bad)
-	c.Floor(rule, nret, 2, "return statements of "+spec)
+	if len(bad) == 0 {
+		c.Ok(rule, spec+"#pure", si.Pos(), "closure of %s (%d functions) has no mutable package state and no nondeterminism source: every client and every call sees the same permutation", spec, len(fns))
+	} else {
+		c.Undec(rule, spec+"#pure", si.Pos(), "closure of %s (%d functions) depends on mutable package state / nondeterminism %v: it is not proven that every call and every client process computes the same permutation for the same (n, seed)", spec, len(fns), bad)
+	}
+	c.Floor(rule, len(nret), 2, "return statements of "+spec)
 }
 
 // ---------------------------------------------------------------- R2: Feistel rounds
@@ -1128,6 +1752,18 @@ func c20Feistel(c *Ctx, p *Prog, pf *ssa.Function, xIdx int) (bitsIdx int, okBit
 		und(qBack.Pos(), "new R is not an xor")
 		return
 	}
+	if nP != 1 {
+		for _, l := range gs {
+			if backSlice(l, sliceOpts{ThroughCalls: true, Stop: func(v ssa.Value) bool { return v == ssa.Value(P) }})[P] {
+				und(qBack.Pos(), "old L enters the new R %d times directly and also through another operand", nP)
+				return
+			}
+		}
+		if nP > 1 {
+			und(qBack.Pos(), "old L is xored into the new R %d times", nP)
+			return
+		}
+	}
 	if !c.Check(nP == 1 && len(gs) > 0, rule, spec+"#round-shape", qBack.Pos(), "round is (L,R) <- (R, L xor g): old L occurs %d time(s) as xor operand of the new R (without it L is lost and the round is not injective)", nP) {
 		return
 	}
@@ -1204,17 +1840,34 @@ func c20Feistel(c *Ctx, p *Prog, pf *ssa.Function, xIdx int) (bitsIdx int, okBit
 			bitsIdx = i
 		}
 	}
-	c.Check(hi.shift != nil && sameValue(hi.shift, lo.w, 0), rule, spec+"#half-widths", P.Pos(), "low half = x & mask(w), high half = (x >> w) & mask(bits-w) with the same w: the halves partition the bits-wide input")
+	// class of a width expression: "n" narrow (bits/2), "w" wide (bits - bits/2), "" unknown
+	class := func(v ssa.Value) string {
+		switch {
+		case c20Same(v, narrow, 0):
+			return "n"
+		case c20Same(v, wide, 0):
+			return "w"
+		}
+		return ""
+	}
+	switch sc := class(hi.shift); {
+	case hi.shift != nil && sc != "" && sc == class(lo.w):
+		c.Ok(rule, spec+"#half-widths", P.Pos(), "low half = x & mask(w), high half = (x >> w) & mask(bits-w) with the same w: the halves partition the bits-wide input")
+	case sc != "":
+		c.Fail(rule, spec+"#half-widths", P.Pos(), "the high half is taken at x >> w' where w' is the other half's width, not the width of the low half: for odd bit counts one input bit is dropped and one is used twice")
+	default:
+		c.Undec(rule, spec+"#half-widths", P.Pos(), "shift of the high half is not recognisably the width of the low half")
+	}
 	// g mask
 	gOK, gBad, gUnd := 0, "", ""
 	for _, g := range gs {
 		_, w, ok := c20Masked(g)
 		switch {
 		case !ok:
-			gBad = "g is xored in without being masked to the narrower half"
-		case sameValue(w, narrow, 0):
+			gUnd = "g is xored in without a recognisable mask to the narrower half"
+		case class(w) == "n":
 			gOK++
-		case sameValue(w, wide, 0):
+		case class(w) == "w":
 			gBad = "g is masked to the wider half (bits - bits/2): for odd bit counts the narrow half overflows and the final masks drop a bit"
 		default:
 			gUnd = "mask width of g is neither half width"
@@ -1307,13 +1960,505 @@ func c20Feistel(c *Ctx, p *Prog, pf *ssa.Function, xIdx int) (bitsIdx int, okBit
 		und(ret.Pos(), "joined values are not the two halves after the last round")
 		return
 	}
-	jOK := sameValue(js, loW, 0) && (loM == nil || sameValue(loM, loW, 0)) && (hiM == nil || sameValue(hiM, hiW, 0))
-	c.Check(jOK, rule, spec+"#join", ret.Pos(), "result = (hi << w_lo) | lo where w_lo is the width of the half placed low and optional masks have the halves' own widths (otherwise halves overlap or lose bits for odd bit counts)")
+	jBad, jUnd := false, false
+	for _, pr := range [][2]ssa.Value{{js, loW}, {loM, loW}, {hiM, hiW}} {
+		if pr[0] == nil {
+			continue // optional mask absent
+		}
+		switch got, want := class(pr[0]), class(pr[1]); {
+		case got == "" || want == "":
+			jUnd = true
+		case got != want:
+			jBad = true
+		}
+	}
+	switch {
+	case jBad:
+		c.Fail(rule, spec+"#join", ret.Pos(), "result is not (hi << w_lo) | lo with w_lo the width of the half placed low and masks of the halves' own widths: halves overlap or lose bits for odd bit counts")
+	case jUnd:
+		c.Undec(rule, spec+"#join", ret.Pos(), "shift/mask widths of the join are not recognisably the half widths")
+	default:
+		c.Ok(rule, spec+"#join", ret.Pos(), "result = (hi << w_lo) | lo where w_lo is the width of the half placed low and optional masks have the halves' own widths")
+	}
 	okBits = true
 	return
 }
 
-// ---------------------------------------------------------------- R4: every consumed byte is visible to the offset bookkeeping
+// ---------------------------------------------------------------- interprocedural path walker
+//
+// Rules about Chunk.Read and the line reader are stated over execution paths
+// ("on every path that reaches the successful return ..."), not over one
+// syntactic arrangement. The walker enumerates the paths of a root function,
+// stepping INTO static calls of chess-3 functions (parameters bound to
+// arguments, call results bound to the callee's returned values on that path),
+// resolving bool phis against the edge taken and pruning branches whose
+// condition is already decided on the path (constants, nil tests of a value
+// whose nil-ness was tested before, results of inlined helpers).
+
+type c20Frame struct {
+	fn     *ssa.Function
+	call   *ssa.Call
+	parent *c20Frame
+	rets   map[*ssa.Call]c20Ret
+	depth  int
+}
+
+type c20Ret struct {
+	fr  *c20Frame
+	ret *ssa.Return
+}
+
+type c20Step struct {
+	fr    *c20Frame
+	in    ssa.Instruction
+	truth bool // for *ssa.If steps: the branch taken
+	note  any  // what the rule's annot callback computed when the step was executed
+}
+
+type c20PhiVal struct {
+	fr  *c20Frame
+	phi *ssa.Phi
+	val ssa.Value
+}
+
+type c20Walker struct {
+	interest func(in ssa.Instruction) bool
+	noInline func(fn *ssa.Function) bool
+	annot    func(st *c20Step) // evaluated in time: values (loop phis) denote what they hold at that moment
+	done     func(path []c20Step, ret *ssa.Return, root *c20Frame)
+	maxVisit int
+	budget   int
+	aborted  bool
+	path     []c20Step
+	phis     []c20PhiVal
+}
+
+func (w *c20Walker) run(fn *ssa.Function) {
+	if w.maxVisit == 0 {
+		w.maxVisit = 1
+	}
+	w.budget = 200000
+	root := &c20Frame{fn: fn, rets: map[*ssa.Call]c20Ret{}}
+	w.enter(root, fn.Blocks[0], nil, map[*ssa.BasicBlock]int{}, func(ret *ssa.Return) { w.done(w.path, ret, root) })
+}
+
+func (w *c20Walker) enter(fr *c20Frame, b, prev *ssa.BasicBlock, seen map[*ssa.BasicBlock]int, k func(*ssa.Return)) {
+	w.budget--
+	if w.budget < 0 {
+		w.aborted = true
+	}
+	if w.aborted || seen[b] >= w.maxVisit {
+		return
+	}
+	seen[b]++
+	base := len(w.phis)
+	defer func() { seen[b]--; w.phis = w.phis[:base] }()
+	if prev != nil {
+		for i, p := range b.Preds {
+			if p != prev {
+				continue
+			}
+			for _, in := range b.Instrs {
+				ph, ok := in.(*ssa.Phi)
+				if !ok {
+					break
+				}
+				w.phis = append(w.phis, c20PhiVal{fr, ph, ph.Edges[i]})
+			}
+			break
+		}
+	}
+	w.block(fr, b, 0, seen, k)
+}
+
+func (w *c20Walker) block(fr *c20Frame, b *ssa.BasicBlock, i int, seen map[*ssa.BasicBlock]int, k func(*ssa.Return)) {
+	base := len(w.path)
+	defer func() { w.path = w.path[:base] }()
+	for ; i < len(b.Instrs); i++ {
+		in := b.Instrs[i]
+		switch x := in.(type) {
+		case *ssa.Call:
+			callee := x.Call.StaticCallee()
+			if callee != nil && isOwn(callee) && callee.Blocks != nil && fr.depth < 4 && !fr.inChain(callee) && (w.noInline == nil || !w.noInline(callee)) {
+				nf := &c20Frame{fn: callee, call: x, parent: fr, rets: map[*ssa.Call]c20Ret{}, depth: fr.depth + 1}
+				next := i + 1
+				w.enter(nf, callee.Blocks[0], nil, map[*ssa.BasicBlock]int{}, func(ret *ssa.Return) {
+					old, had := fr.rets[x]
+					fr.rets[x] = c20Ret{nf, ret}
+					w.block(fr, b, next, seen, k)
+					if had {
+						fr.rets[x] = old
+					} else {
+						delete(fr.rets, x)
+					}
+				})
+				return
+			}
+		case *ssa.If:
+			kn, ok := w.known(fr, x.Cond)
+			for t, s := range []*ssa.BasicBlock{b.Succs[1], b.Succs[0]} {
+				truth := t == 1
+				if ok && kn != truth {
+					continue
+				}
+				w.push(c20Step{fr: fr, in: x, truth: truth})
+				w.enter(fr, s, b, seen, k)
+				w.path = w.path[:len(w.path)-1]
+			}
+			return
+		case *ssa.Jump:
+			w.enter(fr, b.Succs[0], b, seen, k)
+			return
+		case *ssa.Return:
+			w.push(c20Step{fr: fr, in: x})
+			k(x)
+			return
+		case *ssa.Panic:
+			return
+		}
+		if w.interest != nil && w.interest(in) {
+			w.push(c20Step{fr: fr, in: in})
+		}
+	}
+}
+
+func (w *c20Walker) push(st c20Step) {
+	if w.annot != nil {
+		w.annot(&st)
+	}
+	w.path = append(w.path, st)
+}
+
+func (fr *c20Frame) inChain(fn *ssa.Function) bool {
+	for f := fr; f != nil; f = f.parent {
+		if f.fn == fn {
+			return true
+		}
+	}
+	return false
+}
+
+// resolve follows v to where it comes from on the current path: parameters to the
+// caller's arguments, results of inlined calls to the returned values, phis to the edge taken.
+func (w *c20Walker) resolve(fr *c20Frame, v ssa.Value) (*c20Frame, ssa.Value) {
+	for n := 0; n < 64; n++ {
+		switch x := v.(type) {
+		case *ssa.Convert:
+			v = x.X
+			continue
+		case *ssa.ChangeType:
+			v = x.X
+			continue
+		case *ssa.Parameter:
+			if fr.parent != nil {
+				for i, p := range fr.fn.Params {
+					if p == x && i < len(fr.call.Call.Args) {
+						v, fr = fr.call.Call.Args[i], fr.parent
+						break
+					}
+				}
+				if v != ssa.Value(x) {
+					continue
+				}
+			}
+		case *ssa.Call:
+			if r, ok := fr.rets[x]; ok && len(r.ret.Results) == 1 {
+				v, fr = returnedValue(r.ret, 0), r.fr
+				continue
+			}
+		case *ssa.Extract:
+			if call, ok := x.Tuple.(*ssa.Call); ok {
+				if r, ok := fr.rets[call]; ok && x.Index < len(r.ret.Results) {
+					v, fr = returnedValue(r.ret, x.Index), r.fr
+					continue
+				}
+			}
+		case *ssa.Phi:
+			// the value the phi holds now: the edge taken when its block was entered last
+			// (rules that unroll loops evaluate in time through annot; at done time only
+			// values that are current at the return are meaningful)
+			found := false
+			for i := len(w.phis) - 1; i >= 0; i-- {
+				if w.phis[i].fr == fr && w.phis[i].phi == x {
+					v, found = w.phis[i].val, true
+					break
+				}
+			}
+			if found {
+				continue
+			}
+		}
+		break
+	}
+	return fr, v
+}
+
+// nilTest: cond is `v == nil` / `v != nil`; returns the tested value and whether "true" means non-nil.
+func c20NilTest(cond ssa.Value) (v ssa.Value, nonNil, ok bool) {
+	bo, isB := cond.(*ssa.BinOp)
+	if !isB || (bo.Op != token.EQL && bo.Op != token.NEQ) {
+		return nil, false, false
+	}
+	switch {
+	case c20IsNilConst(bo.Y):
+		v = bo.X
+	case c20IsNilConst(bo.X):
+		v = bo.Y
+	default:
+		return nil, false, false
+	}
+	return v, bo.Op == token.NEQ, true
+}
+
+// known: is the truth value of cond already decided on the current path?
+func (w *c20Walker) known(fr *c20Frame, cond ssa.Value) (bool, bool) {
+	fr, cond = w.resolve(fr, cond)
+	switch x := cond.(type) {
+	case *ssa.Const:
+		k, ok := constOf(x)
+		return k != 0, ok
+	case *ssa.UnOp:
+		if x.Op == token.NOT {
+			v, ok := w.known(fr, x.X)
+			return !v, ok
+		}
+	case *ssa.BinOp:
+		if v, nonNil, ok := c20NilTest(x); ok {
+			rf, rv := w.resolve(fr, v)
+			if c20IsNilConst(rv) {
+				return !nonNil, true
+			}
+			for i := len(w.path) - 1; i >= 0; i-- {
+				iff, isIf := w.path[i].in.(*ssa.If)
+				if !isIf {
+					continue
+				}
+				sf, sc := w.resolve(w.path[i].fr, iff.Cond)
+				if v2, nn2, ok := c20NilTest(sc); ok {
+					if f2, r2 := w.resolve(sf, v2); f2 == rf && r2 == rv {
+						return (w.path[i].truth == nn2) == nonNil, true
+					}
+				}
+			}
+		}
+	}
+	return false, false
+}
+
+// sym names the value v symbolically in terms of the root function's parameters:
+// "p0.mapStart", "elem(p0.chunkLines,p0.chunkLinesIx).start", "len(ret0@ReadSlice)"; "" when unknown.
+func (w *c20Walker) sym(fr *c20Frame, v ssa.Value) string {
+	fr, v = w.resolve(fr, v)
+	switch x := v.(type) {
+	case *ssa.Parameter:
+		for i, p := range fr.fn.Params {
+			if p == x {
+				return fmt.Sprintf("p%d", i)
+			}
+		}
+	case *ssa.UnOp:
+		if x.Op == token.MUL {
+			return w.loc(fr, x.X)
+		}
+	case *ssa.Field:
+		if _, s := structOf(x.X.Type()); s != nil {
+			if b := w.sym(fr, x.X); b != "" {
+				return b + "." + s.Field(x.Field).Name()
+			}
+		}
+	case *ssa.Extract:
+		if call, ok := x.Tuple.(*ssa.Call); ok {
+			if obj := calleeObj(call); obj != nil {
+				return fmt.Sprintf("ret%d@%s", x.Index, obj.Name())
+			}
+		}
+	case *ssa.Call:
+		if arg := c20LenOf(x); arg != nil {
+			if s := w.sym(fr, arg); s != "" {
+				return "len(" + s + ")"
+			}
+		}
+	case *ssa.Global:
+		return "&" + x.Name()
+	case *ssa.IndexAddr, *ssa.FieldAddr:
+		// a pointer into a structure names what it points to (used as the base of field selections)
+		return w.loc(fr, v)
+	}
+	return ""
+}
+
+// loc names the content of the storage addressed by addr.
+func (w *c20Walker) loc(fr *c20Frame, addr ssa.Value) string {
+	switch x := addr.(type) {
+	case *ssa.FieldAddr:
+		_, s := structOf(x.X.Type())
+		if s == nil {
+			return ""
+		}
+		base := ""
+		if _, isAlloc := x.X.(*ssa.Alloc); isAlloc {
+			base = w.loc(fr, x.X)
+		} else {
+			base = w.sym(fr, x.X)
+		}
+		if base == "" {
+			return ""
+		}
+		return base + "." + s.Field(x.Field).Name()
+	case *ssa.IndexAddr:
+		xs := w.sym(fr, x.X)
+		is := w.single(fr, x.Index)
+		if is == "" {
+			is = w.linKey(fr, x.Index)
+		}
+		if xs == "" || is == "" {
+			return ""
+		}
+		return "elem(" + xs + "," + is + ")"
+	case *ssa.Alloc:
+		// a local that is assigned as a whole exactly once denotes the assigned value
+		var val ssa.Value
+		n := 0
+		if x.Referrers() != nil {
+			for _, r := range *x.Referrers() {
+				if st, ok := r.(*ssa.Store); ok && st.Addr == ssa.Value(x) {
+					val = st.Val
+					n++
+				}
+			}
+		}
+		if n == 1 {
+			return w.sym(fr, val)
+		}
+	case *ssa.Global:
+		return x.Name()
+	}
+	return ""
+}
+
+// lin flattens an integer expression into symbolic terms with coefficients.
+func (w *c20Walker) lin(fr *c20Frame, v ssa.Value) (terms map[string]int64, k int64, ok bool) {
+	terms = map[string]int64{}
+	ok = true
+	var walk func(fr *c20Frame, v ssa.Value, sign int64)
+	walk = func(fr *c20Frame, v ssa.Value, sign int64) {
+		fr, v = w.resolve(fr, v)
+		if cst, isC := v.(*ssa.Const); isC {
+			if kk, isInt := constOf(cst); isInt {
+				k += sign * kk
+				return
+			}
+		}
+		if b, isB := v.(*ssa.BinOp); isB && (b.Op == token.ADD || b.Op == token.SUB) {
+			walk(fr, b.X, sign)
+			if b.Op == token.ADD {
+				walk(fr, b.Y, sign)
+			} else {
+				walk(fr, b.Y, -sign)
+			}
+			return
+		}
+		if arg := c20LenOf(v); arg != nil {
+			// len(x[:h]) = h, len(x[:]) = len(x)
+			af, a := w.resolve(fr, arg)
+			for {
+				sl, isSl := a.(*ssa.Slice)
+				if !isSl || !c20ZeroOrNil(sl.Low) {
+					break
+				}
+				if sl.High != nil {
+					walk(af, sl.High, sign)
+					return
+				}
+				af, a = w.resolve(af, sl.X)
+			}
+			if as := w.sym(af, a); as != "" {
+				terms["len("+as+")"] += sign
+				if terms["len("+as+")"] == 0 {
+					delete(terms, "len("+as+")")
+				}
+				return
+			}
+		}
+		s := w.sym(fr, v)
+		if s == "" {
+			ok = false
+			return
+		}
+		terms[s] += sign
+		if terms[s] == 0 {
+			delete(terms, s)
+		}
+	}
+	if v == nil {
+		return terms, 0, false
+	}
+	walk(fr, v, 1)
+	return
+}
+
+func c20Key(terms map[string]int64, k int64) string {
+	var parts []string
+	for s, c := range terms {
+		parts = append(parts, fmt.Sprintf("%+d*%s", c, s))
+	}
+	sort.Strings(parts)
+	return fmt.Sprintf("%s%+d", strings.Join(parts, ""), k)
+}
+
+// linKey is the canonical text of lin(v); "" when v is not understood.
+func (w *c20Walker) linKey(fr *c20Frame, v ssa.Value) string {
+	t, k, ok := w.lin(fr, v)
+	if !ok {
+		return ""
+	}
+	return c20Key(t, k)
+}
+
+func c20ZeroOrNil(v ssa.Value) bool {
+	if v == nil {
+		return true
+	}
+	k, ok := constOf(v)
+	return ok && k == 0
+}
+
+func c20One(s string) string { return c20Key(map[string]int64{s: 1}, 0) }
+
+// single: lin(v) is exactly one symbol.
+func (w *c20Walker) single(fr *c20Frame, v ssa.Value) string {
+	t, k, ok := w.lin(fr, v)
+	if !ok || k != 0 || len(t) != 1 {
+		return ""
+	}
+	for s, c := range t {
+		if c == 1 {
+			return s
+		}
+	}
+	return ""
+}
+
+// fact turns the branch taken at an If into "a<=b" (lt: strictly); ok=false when the condition is not an order comparison of two symbols.
+func (w *c20Walker) fact(st c20Step) (a, b string, lt, isCmp, ok bool) {
+	iff := st.in.(*ssa.If)
+	fr, cond := w.resolve(st.fr, iff.Cond)
+	truth := st.truth
+	for {
+		u, isU := cond.(*ssa.UnOp)
+		if !isU || u.Op != token.NOT {
+			break
+		}
+		fr, cond = w.resolve(fr, u.X)
+		truth = !truth
+	}
+	x, y, strict, isRel := c20Rel(cond, truth)
+	if !isRel {
+		return "", "", false, false, false
+	}
+	a, b = w.single(fr, x), w.single(fr, y)
+	return a, b, strict, true, a != "" && b != ""
+}
 
 var c20LineReads = map[string]bool{"ReadSlice": true, "ReadBytes": true, "ReadString": true}
 var c20Harmless = map[string]bool{"Buffered": true, "Size": true, "Peek": true}
@@ -1331,190 +2476,222 @@ func c20IsNilConst(v ssa.Value) bool {
 	return ok && k.Value == nil
 }
 
+// ---------------------------------------------------------------- R4: every consumed byte is visible to the offset bookkeeping (over execution paths)
+
 func c20R4(c *Ctx, p *Prog, acc c20Acc) {
 	const rule = "C20.R4"
 	if !acc.ok {
 		c.Undec(rule, c20Epd+".NewChunker#reader", token.NoPos, "NewChunker's offset bookkeeping was not recognised (see C20.R5), so the reader obligations cannot be instantiated")
-		c.Floor(rule, 0, 1, "line readers analysed")
 		return
 	}
 	F := acc.reader
 	name := fnName(F)
-	var sources []*ssa.Call
-	unknown := ""
-	allInstrs(F, func(in ssa.Instruction) {
-		ci, ok := in.(ssa.CallInstruction)
+	leakKey := name + "#skipped-line"
+	if acc.mode == "off" {
+		leakKey = name + "#unaccounted-bytes"
+	}
+	bufioCall := func(in ssa.Instruction) (*ssa.Call, string) {
+		call, ok := in.(*ssa.Call)
 		if !ok {
-			return
+			return nil, ""
 		}
-		obj := calleeObj(ci)
+		obj := calleeObj(call)
 		if obj == nil {
+			return nil, ""
+		}
+		if sig := obj.Type().(*types.Signature); sig.Recv() != nil && c20IsBufioReader(sig.Recv().Type()) {
+			return call, obj.Name()
+		}
+		return nil, ""
+	}
+	offLoc := ""
+	if acc.offField != nil {
+		offLoc = "p0." + acc.offField.Name()
+	}
+	var leak, unknown string
+	var leakPos token.Pos
+	type retInfo struct {
+		pos  token.Pos
+		und  string
+		bad  string
+		kr   int64
+		meth string
+	}
+	rets := map[token.Pos]retInfo{}
+	nPaths, nReads := 0, 0
+	w := &c20Walker{maxVisit: 2}
+	w.interest = func(in ssa.Instruction) bool {
+		if _, ok := in.(*ssa.Store); ok {
+			return true
+		}
+		call, _ := bufioCall(in)
+		return call != nil
+	}
+	w.annot = func(st *c20Step) {
+		if x, ok := st.in.(*ssa.Store); ok {
+			st.note = [2]string{w.loc(st.fr, x.Addr), w.linKey(st.fr, x.Val)}
+		}
+	}
+	w.done = func(path []c20Step, ret *ssa.Return, root *c20Frame) {
+		nPaths++
+		var pending *ssa.Call // last line read whose bytes are not yet visible to the caller
+		var last *ssa.Call
+		lastMeth := ""
+		for _, st := range path {
+			switch x := st.in.(type) {
+			case *ssa.Call:
+				call, meth := bufioCall(x)
+				if call == nil {
+					continue
+				}
+				if !c20LineReads[meth] {
+					if !c20Harmless[meth] {
+						unknown = "bufio.Reader." + meth
+					}
+					continue
+				}
+				nReads++
+				if pending != nil && leak == "" {
+					if acc.mode == "off" {
+						leak = fmt.Sprintf("the data of bufio.Reader.%s at %s can be followed by the next read at %s without len(data) having been added to %s, which %s uses as the file offset: offsets drift by the unaccounted bytes", lastMeth, p.Rel(pending.Pos()), p.Rel(call.Pos()), acc.offField.Name(), fnName(acc.fn))
+					} else {
+						leak = fmt.Sprintf("the line read by bufio.Reader.%s at %s can be dropped (next read at %s without returning it): its bytes are consumed but invisible to %s, which advances its file offset only by len(line)+%d per returned line", lastMeth, p.Rel(pending.Pos()), p.Rel(call.Pos()), fnName(acc.fn), acc.K)
+					}
+					leakPos = pending.Pos()
+				}
+				pending, last, lastMeth = call, call, meth
+			case *ssa.Store:
+				nt, _ := st.note.([2]string) // location and value, evaluated when the store executed
+				if acc.mode != "off" || pending == nil || nt[0] != offLoc {
+					continue
+				}
+				want := c20Key(map[string]int64{offLoc: 1, "len(ret0@" + lastMeth + ")": 1}, 0)
+				if nt[1] == want {
+					pending = nil
+				}
+				_ = x
+			}
+		}
+		if len(ret.Results) != 2 {
 			return
 		}
-		sig := obj.Type().(*types.Signature)
-		if sig.Recv() != nil && c20IsBufioReader(sig.Recv().Type()) {
-			call, isCall := in.(*ssa.Call)
-			switch {
-			case isCall && c20LineReads[obj.Name()]:
-				sources = append(sources, call)
-			case !c20Harmless[obj.Name()]:
-				unknown = obj.Name()
+		_, e := w.resolve(root, returnedValue(ret, 1))
+		df, d := w.resolve(root, returnedValue(ret, 0))
+		if !c20IsNilConst(e) {
+			if c20IsNilConst(d) && last != nil {
+				c.Note("C20.R4: %s returns (nil, err) at %s: data delivered together with an error (a final line without '\\n') is dropped; the caller stops there, no later offset depends on it", name, p.Rel(ret.Pos()))
 			}
-		} else if callee := ci.Common().StaticCallee(); callee != nil && isOwn(callee) {
-			for _, a := range ci.Common().Args {
-				if c20IsBufioReader(a.Type()) {
-					unknown = "helper " + fnName(callee)
+			return
+		}
+		ri := retInfo{pos: ret.Pos(), meth: lastMeth}
+		if acc.mode == "off" && pending != nil && leak == "" {
+			leak = fmt.Sprintf("a successful return is reached after bufio.Reader.%s at %s without len(data) having been added to %s, which %s uses as the file offset", lastMeth, p.Rel(pending.Pos()), acc.offField.Name(), fnName(acc.fn))
+			leakPos = pending.Pos()
+		}
+		data := "ret0@" + lastMeth
+		// x[:a][:b] denotes x[:b]: descend to the sliced data, keep the outermost upper bound
+		var hiF *c20Frame
+		var hiV ssa.Value
+		lowBad, lowUnd := false, false
+		xf, xv := df, d
+		for {
+			cur, ok := xv.(*ssa.Slice)
+			if !ok {
+				break
+			}
+			if cur.Low != nil {
+				if t, k, ok := w.lin(xf, cur.Low); !ok {
+					lowUnd = true
+				} else if len(t) != 0 || k != 0 {
+					lowBad = true
 				}
 			}
+			if hiV == nil && cur.High != nil {
+				hiF, hiV = xf, cur.High
+			}
+			xf, xv = w.resolve(xf, cur.X)
 		}
-	})
-	if unknown != "" || len(sources) == 0 {
-		c.Undec(rule, name+"#shape", F.Pos(), "%s consumes input through %q / %d line reads: consumption not understood", name, unknown, len(sources))
-		c.Floor(rule, 0, 1, "line readers analysed")
+		switch {
+		case last == nil:
+			ri.und = "a successful return is reached without a line read"
+		case w.sym(xf, xv) != data:
+			ri.und = fmt.Sprintf("the successful return does not return a sub-slice of the data just read (returns %q, data %q)", w.sym(xf, xv), data)
+		case lowUnd:
+			ri.und = "lower bound of the returned line not understood"
+		case lowBad:
+			ri.bad = "returned line does not start at the first consumed byte: leading bytes are consumed but not counted"
+		case hiV != nil:
+			t, k, ok := w.lin(hiF, hiV)
+			if !ok || len(t) != 1 || t["len("+data+")"] != 1 {
+				ri.und = "upper bound of the returned line is not len(data)-K"
+			}
+			ri.kr = -k
+		}
+		if old, seen := rets[ret.Pos()]; seen && (old.bad != "" || old.und != "" || old.kr != acc.K) {
+			return // keep the first problematic path through this return
+		}
+		rets[ret.Pos()] = ri
+	}
+	w.run(F)
+	if w.aborted || unknown != "" || nReads == 0 {
+		c.Undec(rule, name+"#shape", F.Pos(), "%s: consumption not understood (aborted=%v, other consuming call %q, %d line reads on %d paths)", name, w.aborted, unknown, nReads, nPaths)
 		return
 	}
-	isErrReturn := func(in ssa.Instruction) bool {
-		r, ok := in.(*ssa.Return)
-		return ok && len(r.Results) == 2 && !c20IsNilConst(r.Results[1])
+	if leak != "" {
+		c.Fail(rule, leakKey, leakPos, "%s — every later manifest entry is shifted", leak)
+	} else if acc.mode == "off" {
+		c.Ok(rule, leakKey, F.Pos(), "on all %d paths (helpers inlined, loops unrolled twice) len(data) of every line read is added to %s before the next read or a successful return", nPaths, acc.offField.Name())
+	} else {
+		c.Ok(rule, leakKey, F.Pos(), "on all %d paths every line read is returned (or an error) before the next read", nPaths)
 	}
-	for i, S := range sources {
-		sfx := ""
-		if i > 0 {
-			sfx = fmt.Sprintf("@%d", i+1)
-		}
-		var D ssa.Value
-		for _, r := range *S.Referrers() {
-			if ex, ok := r.(*ssa.Extract); ok && ex.Index == 0 {
-				D = ex
-			}
-		}
-		meth := calleeObj(S).Name()
-		// accounting store (reader-side offset mode): recv.off = recv.off + len(D)
-		accounted := func(in ssa.Instruction) bool {
-			st, ok := in.(*ssa.Store)
-			if !ok || acc.mode != "off" || D == nil {
-				return false
-			}
-			f, base, ok := c20FieldOfAddr(st.Addr)
-			if !ok || f != acc.offField || base != ssa.Value(F.Params[0]) {
-				return false
-			}
-			l := c20Linear(st.Val)
-			return l.k == 0 && len(l.neg) == 0 && len(l.pos) == 2 &&
-				c20Take(&l.pos, func(v ssa.Value) bool { return c20LenOf(v) == D }) != nil && c20IsLoadOf(l.pos[0], f, base)
-		}
-		if acc.mode == "acc" {
-			key := name + "#skipped-line" + sfx
-			leak := ""
-			for _, T := range sources {
-				if ok, path := reachAvoiding(S, T, nil); ok {
-					leak = fmt.Sprintf("path (blocks %s) from bufio.Reader.%s back to a read without returning the line", c20Blocks(path), meth)
-					break
-				}
-			}
-			if leak != "" {
-				c.Fail(rule, key, S.Pos(), "%s: the bytes of that line are consumed but invisible to %s, which advances its file offset only by len(line)+%d per returned line — every later manifest entry is shifted by the skipped bytes", leak, fnName(acc.fn), acc.K)
-			} else {
-				c.Ok(rule, key, S.Pos(), "every path from bufio.Reader.%s leaves %s (returning the line or an error) before reading again", meth, name)
-			}
-		} else {
-			key := name + "#unaccounted-bytes" + sfx
-			stop := func(in ssa.Instruction) bool { return accounted(in) || isErrReturn(in) }
-			leak := ""
-			if ok, path := reachAvoiding(S, nil, stop); ok {
-				leak = fmt.Sprintf("path (blocks %s) from bufio.Reader.%s to a successful return", c20Blocks(path), meth)
-			}
-			for _, T := range sources {
-				if ok, path := reachAvoiding(S, T, accounted); ok && leak == "" {
-					leak = fmt.Sprintf("path (blocks %s) from bufio.Reader.%s back to a read", c20Blocks(path), meth)
-				}
-			}
-			if leak != "" {
-				c.Fail(rule, key, S.Pos(), "%s without adding len(data) to %s, which %s uses as the file offset: offsets drift by the unaccounted bytes", leak, acc.offField.Name(), fnName(acc.fn))
-			} else {
-				c.Ok(rule, key, S.Pos(), "len(data) of every bufio.Reader.%s is added to %s on every path to a successful return or to the next read", meth, acc.offField.Name())
-			}
-		}
+	var keys []token.Pos
+	for k := range rets {
+		keys = append(keys, k)
 	}
-	// returned line = data[:len(data)-K]
-	nret := 0
-	for _, b := range F.Blocks {
-		ret, ok := b.Instrs[len(b.Instrs)-1].(*ssa.Return)
-		if !ok || len(ret.Results) != 2 {
-			continue
-		}
-		if !c20IsNilConst(ret.Results[1]) {
-			if c20IsNilConst(ret.Results[0]) {
-				c.Note("C20.R4: %s returns (nil, err) at %s: data delivered together with an error (a final line without '\\n') is dropped; the caller stops there, no later offset depends on it — such a line is not part of the training set for any reader", name, p.Rel(ret.Pos()))
-			}
-			continue
-		}
-		nret++
+	sort.Slice(keys, func(i, j int) bool { return keys[i] < keys[j] })
+	for _, k := range keys {
+		ri := rets[k]
 		key := name + "#returned-line"
-		sl, ok := ret.Results[0].(*ssa.Slice)
-		var src *ssa.Call
-		if ok {
-			if ex, isEx := sl.X.(*ssa.Extract); isEx && ex.Index == 0 {
-				for _, S := range sources {
-					if ex.Tuple == ssa.Value(S) {
-						src = S
-					}
-				}
-			}
+		switch {
+		case ri.bad != "":
+			c.Fail(rule, key, ri.pos, "%s", ri.bad)
+		case ri.und != "":
+			c.Undec(rule, key, ri.pos, "%s", ri.und)
+		default:
+			c.Check(ri.kr == acc.K, rule, key, ri.pos, "returned line = data[:len(data)-%d]; %s accounts len(line)+%d bytes per line (must agree, else each line shifts all later offsets)", ri.kr, fnName(acc.fn), acc.K)
 		}
-		if src == nil {
-			c.Undec(rule, key, ret.Pos(), "successful return does not return a slice of the data just read")
-			continue
-		}
-		if sl.Low != nil {
-			if k, isC := constOf(sl.Low); !isC || k != 0 {
-				c.Fail(rule, key, ret.Pos(), "returned line does not start at the first consumed byte: leading bytes are consumed but not counted")
-				continue
-			}
-		}
-		kr := int64(0)
-		if sl.High != nil {
-			l := c20Linear(sl.High)
-			if !(len(l.pos) == 1 && len(l.neg) == 0 && c20LenOf(l.pos[0]) == sl.X) {
-				c.Undec(rule, key, ret.Pos(), "upper bound of the returned line is not len(data)-K")
-				continue
-			}
-			kr = -l.k
-		}
-		c.Check(kr == acc.K, rule, key, ret.Pos(), "returned line = data[:len(data)-%d]; %s accounts len(line)+%d bytes per line (must agree, else each line shifts all later offsets)", kr, fnName(acc.fn), acc.K)
 	}
-	c.Floor(rule, nret, 1, "successful returns of "+name)
+	c.Floor(rule, len(rets), 1, "successful returns of "+name)
 }
 
-// ---------------------------------------------------------------- R5b-e: Chunk.Read (reader side)
+// ---------------------------------------------------------------- R5b-e: Chunk.Read (reader side), over execution paths
 
-// c20Paths enumerates simple block paths from -> to that avoid a block.
-func c20Paths(from, to, avoid *ssa.BasicBlock, limit int) (out [][]*ssa.BasicBlock, ok bool) {
-	var cur []*ssa.BasicBlock
-	on := map[*ssa.BasicBlock]bool{}
-	ok = true
-	var dfs func(b *ssa.BasicBlock)
-	dfs = func(b *ssa.BasicBlock) {
-		if b == avoid || on[b] || !ok {
-			return
-		}
-		cur = append(cur, b)
-		on[b] = true
-		if b == to {
-			out = append(out, append([]*ssa.BasicBlock{}, cur...))
-			if len(out) > limit {
-				ok = false
-			}
-		} else {
-			for _, s := range b.Succs {
-				dfs(s)
-			}
-		}
-		on[b] = false
-		cur = cur[:len(cur)-1]
+// c20ReadPath is what one path to the successful return of Chunk.Read did, in symbolic terms.
+type c20ReadPath struct {
+	slice            *ssa.Slice
+	buf, lo, hi      string           // sliced buffer, lin keys of the bounds
+	loT, hiT         map[string]int64 // terms of the bounds
+	hiK              int64
+	filled           int // ReadAt calls on the path
+	fillBuf, fillOff string
+	stores           map[string]string // last value (lin key) stored to each location after the last ReadAt ("" = not understood)
+	storeCount       map[string]int    // stores per location on the whole path
+	facts            map[string]bool   // "a<=b" established by branches and not invalidated by later stores
+	unknownSides     []string          // symbols compared by branch conditions whose other side was not understood
+	elemAfterStore   map[string]bool   // an element address was computed after a store to that location
+	desc             string
+}
+
+func c20IsReadAt(in ssa.Instruction) (*ssa.Call, bool) {
+	call, ok := in.(*ssa.Call)
+	if !ok {
+		return nil, false
 	}
-	dfs(from)
-	return out, ok
+	obj := calleeObj(call)
+	if obj == nil || obj.Name() != "ReadAt" || (obj.Pkg() != nil && strings.HasPrefix(obj.Pkg().Path(), Mod)) || len(call.Call.Args) < 2 {
+		return nil, false
+	}
+	return call, true
 }
 
 func c20Read(c *Ctx, p *Prog, acc c20Acc, op c20OpenInfo) {
@@ -1525,197 +2702,241 @@ func c20Read(c *Ctx, p *Prog, acc c20Acc, op c20OpenInfo) {
 		c.Anchor(rule, spec)
 		return
 	}
-	n := 0
-	defer func() { c.Floor(rule, n, 4, "reader-side obligations of "+spec) }()
 	if !acc.ok {
 		c.Undec(rule, spec+"#slice-bounds", fn.Pos(), "writer side (NewChunker) not recognised; reader/writer agreement cannot be decided")
 		return
 	}
-	recv := ssa.Value(fn.Params[0])
-	var sl *ssa.Slice
-	var sret *ssa.Return
-	cnt := 0
-	for _, b := range fn.Blocks {
-		if ret, ok := b.Instrs[len(b.Instrs)-1].(*ssa.Return); ok && len(ret.Results) == 2 && c20IsNilConst(ret.Results[1]) {
-			cnt++
-			sl, _ = ret.Results[0].(*ssa.Slice)
-			sret = ret
+	var paths []c20ReadPath
+	w := &c20Walker{}
+	w.interest = func(in ssa.Instruction) bool {
+		switch in.(type) {
+		case *ssa.Store, *ssa.IndexAddr:
+			return true
 		}
+		_, isRd := c20IsReadAt(in)
+		return isRd
 	}
-	if cnt != 1 || sl == nil || sl.Low == nil || sl.High == nil {
-		c.Undec(rule, spec+"#slice-bounds", fn.Pos(), "no single successful return of buf[lo:hi]")
-		return
-	}
-	// bounds: lo = A.start - recv.G ; hi = A.end - recv.G - K
-	lo, hi := c20Linear(sl.Low), c20Linear(sl.High)
-	var A ssa.Value
-	var G *types.Var
-	if len(lo.pos) == 1 && len(lo.neg) == 1 && len(hi.pos) == 1 && len(hi.neg) == 1 {
-		f1, a1, ok1 := c20FieldLoad(lo.pos[0])
-		f2, a2, ok2 := c20FieldLoad(hi.pos[0])
-		g1, b1, ok3 := c20FieldLoad(lo.neg[0])
-		g2, b2, ok4 := c20FieldLoad(hi.neg[0])
-		if ok1 && ok2 && ok3 && ok4 && a1 == a2 && b1 == recv && b2 == recv && g1 == g2 {
-			A, G = a1, g1
-			good := f1 == acc.startF && f2 == acc.endF && lo.k == 0 && -hi.k == acc.K
-			c.Check(good, rule, spec+"#slice-bounds", sl.Pos(), "returns buf[a.%s-%s+%d : a.%s-%s-%d]; the manifest entry is [start, start+len+%d): the line without its terminator is buf[start-%s : end-%s-%d]", f1.Name(), G.Name(), lo.k, f2.Name(), G.Name(), -hi.k, acc.K, G.Name(), G.Name(), acc.K)
-			n++
+	w.done = func(path []c20Step, ret *ssa.Return, root *c20Frame) {
+		if len(ret.Results) != 2 {
+			return
 		}
-	}
-	if A == nil {
-		c.Undec(rule, spec+"#slice-bounds", sl.Pos(), "slice bounds are not field(a)-field(chunk)[-K] over one line address a")
-		return
-	}
-	isStoreTo := func(f *types.Var) func(ssa.Instruction) bool {
-		return func(in ssa.Instruction) bool {
-			st, ok := in.(*ssa.Store)
-			if !ok {
-				return false
+		if _, e := w.resolve(root, returnedValue(ret, 1)); !c20IsNilConst(e) {
+			return // error / EOF return
+		}
+		rp := c20ReadPath{stores: map[string]string{}, storeCount: map[string]int{}, facts: map[string]bool{}, elemAfterStore: map[string]bool{}}
+		sf, sv := w.resolve(root, returnedValue(ret, 0))
+		if sl, ok := sv.(*ssa.Slice); ok && sl.Low != nil && sl.High != nil {
+			rp.slice = sl
+			rp.buf = w.sym(sf, sl.X)
+			var ok1, ok2 bool
+			var lk int64
+			rp.loT, lk, ok1 = w.lin(sf, sl.Low)
+			rp.hiT, rp.hiK, ok2 = w.lin(sf, sl.High)
+			if ok1 && ok2 {
+				rp.lo, rp.hi = c20Key(rp.loT, lk), c20Key(rp.hiT, rp.hiK)
 			}
-			g, b, ok := c20FieldOfAddr(st.Addr)
-			return ok && g == f && b == recv
 		}
-	}
-	// loads of the window start used in the bounds must not be stale
-	for _, v := range []ssa.Value{lo.neg[0], hi.neg[0]} {
-		ld := v.(ssa.Instruction)
-		allInstrs(fn, func(in ssa.Instruction) {
-			if isStoreTo(G)(in) {
-				r1, _ := reachAvoiding(ld, in, nil)
-				r2, _ := reachAvoiding(in, sl, nil)
-				if r1 && r2 {
-					c.Fail(rule, spec+"#slice-bounds-fresh", ld.Pos(), "%s is read before a store to it that can still happen before the slice is taken: stale window start", G.Name())
+		var blocks []string
+		stored := map[string]bool{}
+		for _, st := range path {
+			switch x := st.in.(type) {
+			case *ssa.If:
+				if st.fr.parent == nil {
+					blocks = append(blocks, fmt.Sprint(x.Block().Index))
 				}
-			}
-		})
-	}
-	// a = chunkLines[ix]; ix advances by one before the successful return
-	var elem ssa.Value
-	if al, ok := A.(*ssa.Alloc); ok && al.Referrers() != nil {
-		for _, r := range *al.Referrers() {
-			if st, ok := r.(*ssa.Store); ok && st.Addr == ssa.Value(al) {
-				if u, ok := st.Val.(*ssa.UnOp); ok && u.Op == token.MUL {
-					elem = u.X
+				a, b, _, isCmp, ok := w.fact(st)
+				if ok {
+					rp.facts[a+"<="+b] = true
+				} else if isCmp {
+					rp.unknownSides = append(rp.unknownSides, a+"|"+b)
 				}
-			}
-		}
-	} else {
-		elem = A
-	}
-	advOK := false
-	if ia, ok := elem.(*ssa.IndexAddr); ok {
-		fl, bl, ok1 := c20FieldLoad(ia.X)
-		fi, bi, ok2 := c20FieldLoad(ia.Index)
-		if ok1 && ok2 && bl == recv && bi == recv && (op.chunkLines == nil || fl == op.chunkLines) {
-			allInstrs(fn, func(in ssa.Instruction) {
-				if st, ok := in.(*ssa.Store); ok && isStoreTo(fi)(in) {
-					l := c20Linear(st.Val)
-					if l.k == 1 && len(l.pos) == 1 && len(l.neg) == 0 && c20IsLoadOf(l.pos[0], fi, recv) && instrDominates(st, sret) && instrDominates(ia, st) {
-						advOK = true
+			case *ssa.Store:
+				t := w.loc(st.fr, x.Addr)
+				if t == "" {
+					continue
+				}
+				rp.stores[t] = w.linKey(st.fr, x.Val)
+				rp.storeCount[t]++
+				stored[t] = true
+				for f := range rp.facts {
+					if strings.HasPrefix(f, t+"<=") || strings.HasSuffix(f, "<="+t) {
+						delete(rp.facts, f)
 					}
 				}
-			})
-		}
-	}
-	if advOK {
-		c.Ok(rule, spec+"#advance", sret.Pos(), "the line address is chunkLines[ix] and ix is incremented by one on the way to the successful return")
-		n++
-	} else {
-		c.Undec(rule, spec+"#advance", sret.Pos(), "cannot show that the returned line is chunkLines[ix] with ix advanced by exactly one per successful Read")
-	}
-	// refill: ReadAt(buf, a.start); G = a.start; H = a.start + count
-	var rd *ssa.Call
-	nrd := 0
-	allInstrs(fn, func(in ssa.Instruction) {
-		if call, ok := in.(*ssa.Call); ok {
-			if obj := calleeObj(call); obj != nil && obj.Name() == "ReadAt" && (obj.Pkg() == nil || !strings.HasPrefix(obj.Pkg().Path(), Mod)) {
-				rd = call
-				nrd++
+			case *ssa.IndexAddr:
+				if l := w.loc(st.fr, x); l != "" {
+					for t := range stored {
+						if strings.Contains(l, t) {
+							rp.elemAfterStore[t] = true
+						}
+					}
+				}
+			case *ssa.Call:
+				if rd, ok := c20IsReadAt(x); ok {
+					args := rd.Call.Args
+					rp.filled++
+					rp.fillBuf, rp.fillOff = w.sym(st.fr, args[len(args)-2]), w.linKey(st.fr, args[len(args)-1])
+					rp.stores = map[string]string{}
+				}
 			}
 		}
-	})
-	if nrd != 1 || len(rd.Call.Args) < 2 {
-		c.Undec(rule, spec+"#refill-window", fn.Pos(), "%d ReadAt calls (want 1)", nrd)
+		rp.desc = "branches at blocks " + strings.Join(blocks, ",")
+		paths = append(paths, rp)
+	}
+	w.run(fn)
+	if w.aborted || len(paths) == 0 {
+		c.Undec(rule, spec+"#slice-bounds", fn.Pos(), "no path to a successful return could be analysed (%d paths, aborted=%v)", len(paths), w.aborted)
 		return
 	}
-	args := rd.Call.Args
-	bufArg, offArg := args[len(args)-2], args[len(args)-1]
-	var count ssa.Value
-	for _, r := range *rd.Referrers() {
-		if ex, ok := r.(*ssa.Extract); ok && ex.Index == 0 {
-			count = ex
-		}
+	c.Floor(rule, len(paths), 1, "paths of "+spec+" (helpers inlined) to the successful return")
+	// --- slice bounds: buf[E.start - p0.G : E.end - p0.G - K]
+	first := paths[0]
+	pos := fn.Pos()
+	if first.slice != nil {
+		pos = first.slice.Pos()
 	}
-	bf, bb, okb := c20FieldLoad(bufArg)
-	sf, sb, oks := c20FieldLoad(sl.X)
-	var H *types.Var
-	gOK := false
-	allInstrs(fn, func(in ssa.Instruction) {
-		st, ok := in.(*ssa.Store)
-		if !ok || !instrDominates(rd, st) {
+	for _, rp := range paths {
+		if rp.slice == nil || rp.lo == "" || rp.lo != first.lo || rp.hi != first.hi || rp.buf != first.buf || rp.buf == "" {
+			c.Undec(rule, spec+"#slice-bounds", pos, "successful returns do not all return the same understood sub-slice buf[lo:hi]")
 			return
 		}
-		f, b, ok := c20FieldOfAddr(st.Addr)
-		if !ok || b != recv {
-			return
-		}
-		l := c20Linear(st.Val)
-		if f == G && l.k == 0 && len(l.pos) == 1 && len(l.neg) == 0 && c20IsLoadOf(l.pos[0], acc.startF, A) {
-			gOK = true
-		}
-		if count != nil && f != G && l.k == 0 && len(l.neg) == 0 && len(l.pos) == 2 &&
-			c20Take(&l.pos, func(v ssa.Value) bool { return v == count }) != nil && c20IsLoadOf(l.pos[0], acc.startF, A) {
-			H = f
-		}
-	})
-	winOK := okb && oks && bf == sf && bb == recv && sb == recv && c20IsLoadOf(offArg, acc.startF, A) && gOK && H != nil
-	if winOK {
-		r1, _ := reachAvoiding(rd, sl, isStoreTo(G))
-		r2, _ := reachAvoiding(rd, sl, isStoreTo(H))
-		winOK = !r1 && !r2
 	}
-	if !winOK {
-		c.Undec(rule, spec+"#refill-window", rd.Pos(), "refill is not ReadAt(buf, a.%s) followed on every path to the slice by window-start = a.%s and window-end = a.%s + count, with buf the sliced buffer", acc.startF.Name(), acc.startF.Name(), acc.startF.Name())
+	var E, G string
+	sfxS, sfxE := "."+acc.startF.Name(), "."+acc.endF.Name()
+	var loPos, hiPos string
+	for s, cf := range first.loT {
+		if cf == 1 {
+			loPos = s
+		} else if cf == -1 {
+			G = s
+		}
+	}
+	for s, cf := range first.hiT {
+		if cf == 1 {
+			hiPos = s
+		}
+	}
+	if len(first.loT) != 2 || len(first.hiT) != 2 || first.hiT[G] != -1 || loPos == "" || hiPos == "" || !strings.HasPrefix(G, "p0.") || !strings.HasPrefix(loPos, "elem(p0.") {
+		c.Undec(rule, spec+"#slice-bounds", pos, "slice bounds are not (line address field) - (chunk field) [- K]: lo=%s hi=%s", first.lo, first.hi)
 		return
 	}
-	c.Ok(rule, spec+"#refill-window", rd.Pos(), "refill reads the sliced buffer at offset a.%s and records the window [%s, %s) = [a.%s, a.%s+count)", acc.startF.Name(), G.Name(), H.Name(), acc.startF.Name(), acc.startF.Name())
-	n++
-	// refill test: every path that skips the refill establishes G <= a.start and a.end <= H
-	paths, ok := c20Paths(fn.Blocks[0], sl.Block(), rd.Block(), 256)
-	if !ok {
-		c.Undec(rule, spec+"#refill-test", sl.Pos(), "too many paths")
+	switch {
+	case strings.HasSuffix(loPos, sfxS) && strings.HasSuffix(hiPos, sfxE) && strings.TrimSuffix(loPos, sfxS) == strings.TrimSuffix(hiPos, sfxE):
+		E = strings.TrimSuffix(loPos, sfxS)
+		lk := c20Key(first.loT, 0) == first.lo
+		c.Check(lk && -first.hiK == acc.K, rule, spec+"#slice-bounds", pos, "returns buf[a.%s-%s : a.%s-%s-%d] (lo=%s); the manifest entry is [start, start+len+%d): the line without its terminator ends %d before a.%s", acc.startF.Name(), G, acc.endF.Name(), G, -first.hiK, first.lo, acc.K, acc.K, acc.endF.Name())
+	case strings.HasSuffix(loPos, sfxE) || strings.HasSuffix(hiPos, sfxS):
+		c.Fail(rule, spec+"#slice-bounds", pos, "slice bounds use the manifest fields in the wrong roles: lo=%s hi=%s, manifest entry is [%s,%s)", first.lo, first.hi, acc.startF.Name(), acc.endF.Name())
+		return
+	default:
+		c.Undec(rule, spec+"#slice-bounds", pos, "slice bounds do not refer to the manifest fields of one line address: lo=%s hi=%s", first.lo, first.hi)
 		return
 	}
-	bad := ""
-	for _, path := range paths {
-		covS, covE := false, false
-		var ids []int
-		for i, b := range path {
-			ids = append(ids, b.Index)
-			if i+1 == len(path) {
-				break
-			}
-			iff, ok := b.Instrs[len(b.Instrs)-1].(*ssa.If)
-			if !ok || b.Succs[0] == b.Succs[1] {
-				continue
-			}
-			x, y, _, ok := c20Rel(iff.Cond, path[i+1] == b.Succs[0])
-			if !ok {
-				continue
-			}
-			if c20IsLoadOf(x, G, recv) && c20IsLoadOf(y, acc.startF, A) {
-				covS = true
-			}
-			if c20IsLoadOf(x, acc.endF, A) && c20IsLoadOf(y, H, recv) {
-				covE = true
-			}
-		}
-		if !covS || !covE {
-			bad = fmt.Sprintf("path (blocks %s) reaches the slice without refill and without establishing %s <= a.%s (%v) and a.%s <= %s (%v)", c20Blocks(ids), G.Name(), acc.startF.Name(), covS, acc.endF.Name(), H.Name(), covE)
+	aS, aE := E+sfxS, E+sfxE
+	// --- the line address is chunkLines[ix]; ix advances by exactly one, after the address was taken
+	ixSym := ""
+	if i := strings.LastIndex(E, ","); i > 0 && strings.HasSuffix(E, ")") {
+		ixSym = E[i+1 : len(E)-1]
+	}
+	wantList := ""
+	if op.chunkLines != nil {
+		wantList = "elem(p0." + op.chunkLines.Name() + ","
+	}
+	advBad, advUnd := "", ""
+	for _, rp := range paths {
+		switch {
+		case ixSym == "" || !strings.HasPrefix(ixSym, "p0.") || (wantList != "" && !strings.HasPrefix(E, wantList)):
+			advUnd = "line address " + E + " is not <list filled by Open>[<chunk field>]"
+		case rp.elemAfterStore[ixSym]:
+			advUnd = "the element address is computed after the index was advanced"
+		case rp.storeCount[ixSym] == 1 && rp.stores[ixSym] == c20Key(map[string]int64{ixSym: 1}, 1):
+		case rp.storeCount[ixSym] == 0:
+			advBad = "a path (" + rp.desc + ") returns a line without advancing " + ixSym + ": the same line is delivered again"
+		case rp.storeCount[ixSym] == 1 && rp.stores[ixSym] != "" && rp.filled == 0:
+			advBad = fmt.Sprintf("%s is set to %s instead of %s+1", ixSym, rp.stores[ixSym], ixSym)
+		default:
+			advUnd = fmt.Sprintf("%d stores to %s on a path (%s)", rp.storeCount[ixSym], ixSym, rp.desc)
 		}
 	}
-	c.Check(bad == "", rule, spec+"#refill-test", sl.Pos(), "the buffer is reused only when it covers the whole [a.%s, a.%s): %d non-refill path(s) checked %s — otherwise bytes of another region are returned as this line", acc.startF.Name(), acc.endF.Name(), len(paths), bad)
-	n++
+	switch {
+	case advBad != "":
+		c.Fail(rule, spec+"#advance", pos, "%s", advBad)
+	case advUnd != "":
+		c.Undec(rule, spec+"#advance", pos, "cannot show that every successful Read delivers chunkLines[ix] and advances ix by one: %s", advUnd)
+	default:
+		c.Ok(rule, spec+"#advance", pos, "on all %d paths the returned line is %s and %s is incremented exactly once, after the address was taken", len(paths), E, ixSym)
+	}
+	// --- refill paths: ReadAt(buf, a.start); G = a.start; H = a.start + count
+	H := ""
+	nFill := 0
+	winUnd := ""
+	wantOff := c20One(aS)
+	for _, rp := range paths {
+		if rp.filled == 0 {
+			continue
+		}
+		nFill++
+		h := ""
+		for t, v := range rp.stores {
+			if t != G && v == c20Key(map[string]int64{aS: 1, "ret0@ReadAt": 1}, 0) {
+				h = t
+			}
+		}
+		switch {
+		case rp.filled > 1:
+			winUnd = "more than one ReadAt on a path"
+		case rp.fillBuf != rp.buf || rp.fillOff != wantOff:
+			winUnd = fmt.Sprintf("ReadAt fills %s at offset %s, the slice is taken from %s relative to %s", rp.fillBuf, rp.fillOff, rp.buf, wantOff)
+		case rp.stores[G] != wantOff:
+			winUnd = fmt.Sprintf("after the ReadAt %s is %q, not the read offset %s", G, rp.stores[G], wantOff)
+		case h == "" || (H != "" && h != H):
+			winUnd = "after the ReadAt no chunk field is set to offset + bytes read"
+		}
+		if h != "" {
+			H = h
+		}
+	}
+	if nFill == 0 {
+		winUnd = "no path refills the buffer"
+	}
+	if winUnd != "" {
+		c.Undec(rule, spec+"#refill-window", pos, "refill is not ReadAt(buf, a.%s) followed on the way to the slice by window-start = a.%s and window-end = a.%s + count: %s", acc.startF.Name(), acc.startF.Name(), acc.startF.Name(), winUnd)
+		return
+	}
+	c.Ok(rule, spec+"#refill-window", pos, "on all %d refill paths: ReadAt(%s, %s), then %s = a.%s and %s = a.%s + count before the slice is taken", nFill, first.buf, aS, G, acc.startF.Name(), H, acc.startF.Name())
+	// --- paths without refill must have established G <= a.start and a.end <= H
+	bad, und := "", ""
+	nSkip := 0
+	for _, rp := range paths {
+		if rp.filled > 0 {
+			continue
+		}
+		nSkip++
+		covS, covE := rp.facts[G+"<="+aS], rp.facts[aE+"<="+H]
+		if covS && covE {
+			continue
+		}
+		msg := fmt.Sprintf("path (%s) reaches the slice without refill and without having established %s <= a.%s (%v) and a.%s <= %s (%v)", rp.desc, G, acc.startF.Name(), covS, acc.endF.Name(), H, covE)
+		unk := false
+		for _, u := range rp.unknownSides {
+			for _, side := range strings.Split(u, "|") {
+				unk = unk || side == G || side == H || side == aS || side == aE
+			}
+		}
+		if unk {
+			und = msg
+		} else {
+			bad = msg
+		}
+	}
+	switch {
+	case bad != "":
+		c.Fail(rule, spec+"#refill-test", pos, "%s — bytes of another file region are returned as this line", bad)
+	case und != "":
+		c.Undec(rule, spec+"#refill-test", pos, "%s (a branch condition on the path was not understood)", und)
+	default:
+		c.Ok(rule, spec+"#refill-test", pos, "the buffer is reused only when it covers the whole [a.%s, a.%s): %d non-refill path(s) checked", acc.startF.Name(), acc.endF.Name(), nSkip)
+	}
 }
 
 // ---------------------------------------------------------------- mutants
